@@ -1,18 +1,49 @@
 /-
-C17 — complete-shell non-linear tangent stiffness = Jacobian of the internal force (glue level) and independence of the
-number of integration threads.
+C17 — complete-shell non-linear tangent stiffness = Jacobian of the internal force.
 
-Only property theorems live here; helper lemmas are in `Model/ShellNLLemmas.lean`.  They are about the hand-written model
-`Model/ShellNL.lean` of `ConeCyl._calc_NL_matrices / calc_kT / calc_fint` and of `integratev`, tied to the running Python by
-`tools/props/C17.py` (the full vectors handed to every compiled kernel are recorded and compared with the model's; `kT`
-re-assembled from the recorded kernel outputs; `integratev` through the compiled test integrand for 1..8 threads).
+Only property theorems live here.
 
-What is NOT proved: that the compiled integrands `cfk0L, cfkLL, cfkG, cffint` satisfy the pointwise Jacobian relation
-(`hJ` below is a hypothesis).  It is evaluated on the implementation for every non-linear-capable model (exact polynomial
-finite differences of `calc_fint` against `calc_kT`), and the models for which it fails on the unchanged tree are recorded in
-`known_findings.json`.
+STAGE 1 (glue level, thread-count independence): about the hand-written model `Model/ShellNL.lean` of
+`ConeCyl._calc_NL_matrices / calc_kT / calc_fint` and of `integratev`, tied to the running Python by `tools/props/C17.py`
+(the full vectors handed to every compiled kernel are recorded and compared with the model's; `kT` re-assembled from the
+recorded kernel outputs; `integratev` through the compiled test integrand for 1..8 threads).  Helper lemmas:
+`Model/ShellNLLemmas.lean`.
+
+STAGE 2 (the kernels): the pointwise content of `cfk0L, cfkLL, cfkG, cffint` of every CLPT non-linear module, and of the commons
+functions that feed them, is REGENERATED from the sources on every run (`tools/translate/gen_conecyl_nl.py` ->
+`Gen/ConeCylNL/<Model>.lean`, vocabulary `Core/ShellNLSpec.lean`; tie to the running binary: `tools/conecyl_nl_check.py`).  Per model:
+  `shell_fint_zero_*`, `shell_kT_is_jacobian_*`, `shell_kT_integrand_symm_*`   at one integration point, all variables free;
+  `shell_tangent_is_jacobian_*`   matrix level: hypothesis `hJ` of `tangent_is_jacobian_glue` discharged for the modelled
+                                  kernel outputs (quadrature of the regenerated integrands at the regenerated positions);
+  `shell_kernel_inputs_*`         the commons module feeds `cfk0L / cfkLL / cfkG` the state functionals of `cffint`.
+Helper lemmas: `Spec/ShellJacobian/{Abstract,Generic,Lift,Assembly,StdLayout}.lean` (model independent) and
+`Spec/ShellJacobian/<Model>(/*).lean` (one small `ring` identity per pair of degree-of-freedom types, instantiated from a template
+by `tools/translate/gen_shell_jacobian.py`).
+Fully proved: clpt_donnell_bc1..4, iso_clpt_donnell_bc2/3.   Sanders family: every statement excludes the load-asymmetry
+amplitude `c[2]` (`…_partial`; `cfk0L` builds that row from a different shape function than `cffint`: `…_counterexample`);
+clpt_sanders_bc2: `calc_k0L` skips `row > col` inside its diagonal blocks although `k0L` enters as `k0L + k0Lᵀ`
+(`shell_tangent_matrix_clpt_sanders_bc2_counterexample`); clpt_sanders_bc3: `cfstrain_sanders` of `clpt_commons_bc3` lacks one
+term of `γ_xθ`, so `cfkG` is fed other resultants than `cffint` uses (`shell_kernel_inputs_clpt_sanders_bc3_counterexample`).
+These two are the recorded findings `C17-kT-not-jacobian-clpt_sanders_bc2 / _bc3`.
+FSDT (`fsdt_donnell_bc1`, `fsdt_donnell_bcn`): translated (IR + 8-strain vocabulary `Core/ShellNLSpec8.lean`), validated (V) and REFUTED at
+one integration point (`shell_kT_is_jacobian_fsdt_donnell_*_counterexample`); no positive (`…_partial`) theorems for them.
+NOT covered: that every COO position receives exactly one triplet (dof-map injectivity; checked by the
+translator per block and exercised by validation V); floating point.
 -/
 import CompmechVerif.Model.ShellNLLemmas
+import CompmechVerif.Spec.ShellJacobian.StdLayout
+import CompmechVerif.Spec.ShellJacobian.ClptDonnellBc1
+import CompmechVerif.Spec.ShellJacobian.ClptDonnellBc2
+import CompmechVerif.Spec.ShellJacobian.ClptDonnellBc3
+import CompmechVerif.Spec.ShellJacobian.ClptDonnellBc4
+import CompmechVerif.Spec.ShellJacobian.IsoClptDonnellBc2
+import CompmechVerif.Spec.ShellJacobian.IsoClptDonnellBc3
+import CompmechVerif.Spec.ShellJacobian.ClptSandersBc1
+import CompmechVerif.Spec.ShellJacobian.ClptSandersBc2
+import CompmechVerif.Spec.ShellJacobian.ClptSandersBc3
+import CompmechVerif.Spec.ShellJacobian.ClptSandersBc4
+import CompmechVerif.Spec.ShellJacobian.FsdtDonnellBc1
+import CompmechVerif.Spec.ShellJacobian.FsdtDonnellBcn
 
 namespace Compmech.ShellNL.C17
 open Compmech.ShellNL Compmech.Integrate
@@ -108,5 +139,681 @@ theorem state_at_full_load (E : List Nat) (c : Vec K) : kTState E (1 : K) c = c 
 example : integratev (fun x y => x + y) (trapz2dPoints (0 : ℚ) 1 3 0 1 2) 4 =
     quad (trapz2dPoints (0 : ℚ) 1 3 0 1 2) (fun x y => x + y) :=
   integratev_thread_invariant_trapz _ _ _ _ _ _ _ 4 (by norm_num)
+
+
+/-! ## Stage 2 — the regenerated kernels -/
+
+section Stage2
+open Compmech.Gen.ConeCylNL
+
+variable {K : Type} [Field K] [CharZero K]
+
+/-! #### clpt_donnell_bc1 -/
+
+/-- `clpt_donnell_bc1`: with no amplitudes the integrand of every component of `calc_fint_0L_L0_LL` vanishes at every point — for every
+geometry, laminate and imperfection (`castro = 0`: the imperfection enters only multiplied by amplitudes). -/
+theorem shell_fint_zero_clpt_donnell_bc1 (G : Geo K) (hL : G.L ≠ 0) (hr : G.r ≠ 0) (hc : G.cosa ≠ 0) (A : Fin 12) (a : Dof K) :
+    fintAt (ClptDonnellBc1.model K) G [] A a = 0 :=
+  Generic.fint_zero (ShellJacobian.ClptDonnellBc1.ok G hL hr hc) (ShellJacobian.ClptDonnellBc1.eLc_zero G) A a
+
+/-- `clpt_donnell_bc1`: at ANY state `cs` (any list of amplitudes with the point values of their degrees of freedom), along ANY direction
+`ds`, the integrand of the internal-force component of ANY degree of freedom `(A, a)` is a cubic in the step `t` whose linear
+coefficient is the integrand of `(k0L + k0Lᵀ + kLL + kG)[(A, a), ·]` applied to `ds` — the regenerated tangent integrand is the
+exact derivative of the regenerated internal-force integrand, for all values of the point variables (`L, r, cos α ≠ 0`). -/
+theorem shell_kT_is_jacobian_clpt_donnell_bc1 (G : Geo K) (hL : G.L ≠ 0) (hr : G.r ≠ 0) (hc : G.cosa ≠ 0) (cs ds : List (Amp 12 K)) (A : Fin 12) (a : Dof K) :
+    ∃ R₂ R₃ : K, ∀ t : K,
+      fintAt (ClptDonnellBc1.model K) G (cs ++ ds.map (Amp.scale t)) A a =
+        fintAt (ClptDonnellBc1.model K) G cs A a + t * (ds.map fun d => d.c * kTAt (ClptDonnellBc1.model K) G cs A a d.ty d.d).sum
+          + t ^ 2 * R₂ + t ^ 3 * R₃ :=
+  Generic.kT_is_jacobian (ShellJacobian.ClptDonnellBc1.ok G hL hr hc) cs ds A trivial (fun _ _ => Or.inl trivial) a
+
+/-- `clpt_donnell_bc1`: the tangent integrand with the roles of the two degrees of freedom exchanged is the same number. -/
+theorem shell_kT_integrand_symm_clpt_donnell_bc1 (G : Geo K) (hL : G.L ≠ 0) (hr : G.r ≠ 0) (hc : G.cosa ≠ 0) (cs : List (Amp 12 K)) (A B : Fin 12) (a b : Dof K) :
+    kTAt (ClptDonnellBc1.model K) G cs A a B b = kTAt (ClptDonnellBc1.model K) G cs B b A a :=
+  Generic.kT_symm (ShellJacobian.ClptDonnellBc1.ok G hL hr hc) cs A B trivial trivial a b
+
+/-! #### clpt_donnell_bc2 -/
+
+/-- `clpt_donnell_bc2`: with no amplitudes the integrand of every component of `calc_fint_0L_L0_LL` vanishes at every point — for every
+geometry, laminate and imperfection (`castro = 0`: the imperfection enters only multiplied by amplitudes). -/
+theorem shell_fint_zero_clpt_donnell_bc2 (G : Geo K) (hL : G.L ≠ 0) (hr : G.r ≠ 0) (hc : G.cosa ≠ 0) (A : Fin 12) (a : Dof K) :
+    fintAt (ClptDonnellBc2.model K) G [] A a = 0 :=
+  Generic.fint_zero (ShellJacobian.ClptDonnellBc2.ok G hL hr hc) (ShellJacobian.ClptDonnellBc2.eLc_zero G) A a
+
+/-- `clpt_donnell_bc2`: at ANY state `cs` (any list of amplitudes with the point values of their degrees of freedom), along ANY direction
+`ds`, the integrand of the internal-force component of ANY degree of freedom `(A, a)` is a cubic in the step `t` whose linear
+coefficient is the integrand of `(k0L + k0Lᵀ + kLL + kG)[(A, a), ·]` applied to `ds` — the regenerated tangent integrand is the
+exact derivative of the regenerated internal-force integrand, for all values of the point variables (`L, r, cos α ≠ 0`). -/
+theorem shell_kT_is_jacobian_clpt_donnell_bc2 (G : Geo K) (hL : G.L ≠ 0) (hr : G.r ≠ 0) (hc : G.cosa ≠ 0) (cs ds : List (Amp 12 K)) (A : Fin 12) (a : Dof K) :
+    ∃ R₂ R₃ : K, ∀ t : K,
+      fintAt (ClptDonnellBc2.model K) G (cs ++ ds.map (Amp.scale t)) A a =
+        fintAt (ClptDonnellBc2.model K) G cs A a + t * (ds.map fun d => d.c * kTAt (ClptDonnellBc2.model K) G cs A a d.ty d.d).sum
+          + t ^ 2 * R₂ + t ^ 3 * R₃ :=
+  Generic.kT_is_jacobian (ShellJacobian.ClptDonnellBc2.ok G hL hr hc) cs ds A trivial (fun _ _ => Or.inl trivial) a
+
+/-- `clpt_donnell_bc2`: the tangent integrand with the roles of the two degrees of freedom exchanged is the same number. -/
+theorem shell_kT_integrand_symm_clpt_donnell_bc2 (G : Geo K) (hL : G.L ≠ 0) (hr : G.r ≠ 0) (hc : G.cosa ≠ 0) (cs : List (Amp 12 K)) (A B : Fin 12) (a b : Dof K) :
+    kTAt (ClptDonnellBc2.model K) G cs A a B b = kTAt (ClptDonnellBc2.model K) G cs B b A a :=
+  Generic.kT_symm (ShellJacobian.ClptDonnellBc2.ok G hL hr hc) cs A B trivial trivial a b
+
+/-! #### clpt_donnell_bc3 -/
+
+/-- `clpt_donnell_bc3`: with no amplitudes the integrand of every component of `calc_fint_0L_L0_LL` vanishes at every point — for every
+geometry, laminate and imperfection (`castro = 0`: the imperfection enters only multiplied by amplitudes). -/
+theorem shell_fint_zero_clpt_donnell_bc3 (G : Geo K) (hL : G.L ≠ 0) (hr : G.r ≠ 0) (hc : G.cosa ≠ 0) (A : Fin 12) (a : Dof K) :
+    fintAt (ClptDonnellBc3.model K) G [] A a = 0 :=
+  Generic.fint_zero (ShellJacobian.ClptDonnellBc3.ok G hL hr hc) (ShellJacobian.ClptDonnellBc3.eLc_zero G) A a
+
+/-- `clpt_donnell_bc3`: at ANY state `cs` (any list of amplitudes with the point values of their degrees of freedom), along ANY direction
+`ds`, the integrand of the internal-force component of ANY degree of freedom `(A, a)` is a cubic in the step `t` whose linear
+coefficient is the integrand of `(k0L + k0Lᵀ + kLL + kG)[(A, a), ·]` applied to `ds` — the regenerated tangent integrand is the
+exact derivative of the regenerated internal-force integrand, for all values of the point variables (`L, r, cos α ≠ 0`). -/
+theorem shell_kT_is_jacobian_clpt_donnell_bc3 (G : Geo K) (hL : G.L ≠ 0) (hr : G.r ≠ 0) (hc : G.cosa ≠ 0) (cs ds : List (Amp 12 K)) (A : Fin 12) (a : Dof K) :
+    ∃ R₂ R₃ : K, ∀ t : K,
+      fintAt (ClptDonnellBc3.model K) G (cs ++ ds.map (Amp.scale t)) A a =
+        fintAt (ClptDonnellBc3.model K) G cs A a + t * (ds.map fun d => d.c * kTAt (ClptDonnellBc3.model K) G cs A a d.ty d.d).sum
+          + t ^ 2 * R₂ + t ^ 3 * R₃ :=
+  Generic.kT_is_jacobian (ShellJacobian.ClptDonnellBc3.ok G hL hr hc) cs ds A trivial (fun _ _ => Or.inl trivial) a
+
+/-- `clpt_donnell_bc3`: the tangent integrand with the roles of the two degrees of freedom exchanged is the same number. -/
+theorem shell_kT_integrand_symm_clpt_donnell_bc3 (G : Geo K) (hL : G.L ≠ 0) (hr : G.r ≠ 0) (hc : G.cosa ≠ 0) (cs : List (Amp 12 K)) (A B : Fin 12) (a b : Dof K) :
+    kTAt (ClptDonnellBc3.model K) G cs A a B b = kTAt (ClptDonnellBc3.model K) G cs B b A a :=
+  Generic.kT_symm (ShellJacobian.ClptDonnellBc3.ok G hL hr hc) cs A B trivial trivial a b
+
+/-! #### clpt_donnell_bc4 -/
+
+/-- `clpt_donnell_bc4`: with no amplitudes the integrand of every component of `calc_fint_0L_L0_LL` vanishes at every point — for every
+geometry, laminate and imperfection (`castro = 0`: the imperfection enters only multiplied by amplitudes). -/
+theorem shell_fint_zero_clpt_donnell_bc4 (G : Geo K) (hL : G.L ≠ 0) (hr : G.r ≠ 0) (hc : G.cosa ≠ 0) (A : Fin 12) (a : Dof K) :
+    fintAt (ClptDonnellBc4.model K) G [] A a = 0 :=
+  Generic.fint_zero (ShellJacobian.ClptDonnellBc4.ok G hL hr hc) (ShellJacobian.ClptDonnellBc4.eLc_zero G) A a
+
+/-- `clpt_donnell_bc4`: at ANY state `cs` (any list of amplitudes with the point values of their degrees of freedom), along ANY direction
+`ds`, the integrand of the internal-force component of ANY degree of freedom `(A, a)` is a cubic in the step `t` whose linear
+coefficient is the integrand of `(k0L + k0Lᵀ + kLL + kG)[(A, a), ·]` applied to `ds` — the regenerated tangent integrand is the
+exact derivative of the regenerated internal-force integrand, for all values of the point variables (`L, r, cos α ≠ 0`). -/
+theorem shell_kT_is_jacobian_clpt_donnell_bc4 (G : Geo K) (hL : G.L ≠ 0) (hr : G.r ≠ 0) (hc : G.cosa ≠ 0) (cs ds : List (Amp 12 K)) (A : Fin 12) (a : Dof K) :
+    ∃ R₂ R₃ : K, ∀ t : K,
+      fintAt (ClptDonnellBc4.model K) G (cs ++ ds.map (Amp.scale t)) A a =
+        fintAt (ClptDonnellBc4.model K) G cs A a + t * (ds.map fun d => d.c * kTAt (ClptDonnellBc4.model K) G cs A a d.ty d.d).sum
+          + t ^ 2 * R₂ + t ^ 3 * R₃ :=
+  Generic.kT_is_jacobian (ShellJacobian.ClptDonnellBc4.ok G hL hr hc) cs ds A trivial (fun _ _ => Or.inl trivial) a
+
+/-- `clpt_donnell_bc4`: the tangent integrand with the roles of the two degrees of freedom exchanged is the same number. -/
+theorem shell_kT_integrand_symm_clpt_donnell_bc4 (G : Geo K) (hL : G.L ≠ 0) (hr : G.r ≠ 0) (hc : G.cosa ≠ 0) (cs : List (Amp 12 K)) (A B : Fin 12) (a b : Dof K) :
+    kTAt (ClptDonnellBc4.model K) G cs A a B b = kTAt (ClptDonnellBc4.model K) G cs B b A a :=
+  Generic.kT_symm (ShellJacobian.ClptDonnellBc4.ok G hL hr hc) cs A B trivial trivial a b
+
+/-! #### iso_clpt_donnell_bc2 -/
+
+/-- `iso_clpt_donnell_bc2`: with no amplitudes the integrand of every component of `calc_fint_0L_L0_LL` vanishes at every point — for every
+geometry, laminate and imperfection (`castro = 0`: the imperfection enters only multiplied by amplitudes).  The laminate is the isotropic one `conecyl.py` builds (`IsoLam`), `ν ≠ ±1`. -/
+theorem shell_fint_zero_iso_clpt_donnell_bc2 (G : Geo K) (hL : G.L ≠ 0) (hr : G.r ≠ 0) (hc : G.cosa ≠ 0) (hi : G.IsoLam) (hn1 : G.nu + 1 ≠ 0) (hn2 : G.nu - 1 ≠ 0) (A : Fin 12) (a : Dof K) :
+    fintAt (IsoClptDonnellBc2.model K) G [] A a = 0 :=
+  Generic.fint_zero (ShellJacobian.IsoClptDonnellBc2.ok G hL hr hc hi hn1 hn2) (ShellJacobian.IsoClptDonnellBc2.eLc_zero G) A a
+
+/-- `iso_clpt_donnell_bc2`: at ANY state `cs` (any list of amplitudes with the point values of their degrees of freedom), along ANY direction
+`ds`, the integrand of the internal-force component of ANY degree of freedom `(A, a)` is a cubic in the step `t` whose linear
+coefficient is the integrand of `(k0L + k0Lᵀ + kLL + kG)[(A, a), ·]` applied to `ds` — the regenerated tangent integrand is the
+exact derivative of the regenerated internal-force integrand, for all values of the point variables (`L, r, cos α ≠ 0`).  The laminate is the isotropic one `conecyl.py` builds (`IsoLam`), `ν ≠ ±1`. -/
+theorem shell_kT_is_jacobian_iso_clpt_donnell_bc2 (G : Geo K) (hL : G.L ≠ 0) (hr : G.r ≠ 0) (hc : G.cosa ≠ 0) (hi : G.IsoLam) (hn1 : G.nu + 1 ≠ 0) (hn2 : G.nu - 1 ≠ 0) (cs ds : List (Amp 12 K)) (A : Fin 12) (a : Dof K) :
+    ∃ R₂ R₃ : K, ∀ t : K,
+      fintAt (IsoClptDonnellBc2.model K) G (cs ++ ds.map (Amp.scale t)) A a =
+        fintAt (IsoClptDonnellBc2.model K) G cs A a + t * (ds.map fun d => d.c * kTAt (IsoClptDonnellBc2.model K) G cs A a d.ty d.d).sum
+          + t ^ 2 * R₂ + t ^ 3 * R₃ :=
+  Generic.kT_is_jacobian (ShellJacobian.IsoClptDonnellBc2.ok G hL hr hc hi hn1 hn2) cs ds A trivial (fun _ _ => Or.inl trivial) a
+
+/-- `iso_clpt_donnell_bc2`: the tangent integrand with the roles of the two degrees of freedom exchanged is the same number. -/
+theorem shell_kT_integrand_symm_iso_clpt_donnell_bc2 (G : Geo K) (hL : G.L ≠ 0) (hr : G.r ≠ 0) (hc : G.cosa ≠ 0) (hi : G.IsoLam) (hn1 : G.nu + 1 ≠ 0) (hn2 : G.nu - 1 ≠ 0) (cs : List (Amp 12 K)) (A B : Fin 12) (a b : Dof K) :
+    kTAt (IsoClptDonnellBc2.model K) G cs A a B b = kTAt (IsoClptDonnellBc2.model K) G cs B b A a :=
+  Generic.kT_symm (ShellJacobian.IsoClptDonnellBc2.ok G hL hr hc hi hn1 hn2) cs A B trivial trivial a b
+
+/-! #### iso_clpt_donnell_bc3 -/
+
+/-- `iso_clpt_donnell_bc3`: with no amplitudes the integrand of every component of `calc_fint_0L_L0_LL` vanishes at every point — for every
+geometry, laminate and imperfection (`castro = 0`: the imperfection enters only multiplied by amplitudes).  The laminate is the isotropic one `conecyl.py` builds (`IsoLam`), `ν ≠ ±1`. -/
+theorem shell_fint_zero_iso_clpt_donnell_bc3 (G : Geo K) (hL : G.L ≠ 0) (hr : G.r ≠ 0) (hc : G.cosa ≠ 0) (hi : G.IsoLam) (hn1 : G.nu + 1 ≠ 0) (hn2 : G.nu - 1 ≠ 0) (A : Fin 12) (a : Dof K) :
+    fintAt (IsoClptDonnellBc3.model K) G [] A a = 0 :=
+  Generic.fint_zero (ShellJacobian.IsoClptDonnellBc3.ok G hL hr hc hi hn1 hn2) (ShellJacobian.IsoClptDonnellBc3.eLc_zero G) A a
+
+/-- `iso_clpt_donnell_bc3`: at ANY state `cs` (any list of amplitudes with the point values of their degrees of freedom), along ANY direction
+`ds`, the integrand of the internal-force component of ANY degree of freedom `(A, a)` is a cubic in the step `t` whose linear
+coefficient is the integrand of `(k0L + k0Lᵀ + kLL + kG)[(A, a), ·]` applied to `ds` — the regenerated tangent integrand is the
+exact derivative of the regenerated internal-force integrand, for all values of the point variables (`L, r, cos α ≠ 0`).  The laminate is the isotropic one `conecyl.py` builds (`IsoLam`), `ν ≠ ±1`. -/
+theorem shell_kT_is_jacobian_iso_clpt_donnell_bc3 (G : Geo K) (hL : G.L ≠ 0) (hr : G.r ≠ 0) (hc : G.cosa ≠ 0) (hi : G.IsoLam) (hn1 : G.nu + 1 ≠ 0) (hn2 : G.nu - 1 ≠ 0) (cs ds : List (Amp 12 K)) (A : Fin 12) (a : Dof K) :
+    ∃ R₂ R₃ : K, ∀ t : K,
+      fintAt (IsoClptDonnellBc3.model K) G (cs ++ ds.map (Amp.scale t)) A a =
+        fintAt (IsoClptDonnellBc3.model K) G cs A a + t * (ds.map fun d => d.c * kTAt (IsoClptDonnellBc3.model K) G cs A a d.ty d.d).sum
+          + t ^ 2 * R₂ + t ^ 3 * R₃ :=
+  Generic.kT_is_jacobian (ShellJacobian.IsoClptDonnellBc3.ok G hL hr hc hi hn1 hn2) cs ds A trivial (fun _ _ => Or.inl trivial) a
+
+/-- `iso_clpt_donnell_bc3`: the tangent integrand with the roles of the two degrees of freedom exchanged is the same number. -/
+theorem shell_kT_integrand_symm_iso_clpt_donnell_bc3 (G : Geo K) (hL : G.L ≠ 0) (hr : G.r ≠ 0) (hc : G.cosa ≠ 0) (hi : G.IsoLam) (hn1 : G.nu + 1 ≠ 0) (hn2 : G.nu - 1 ≠ 0) (cs : List (Amp 12 K)) (A B : Fin 12) (a b : Dof K) :
+    kTAt (IsoClptDonnellBc3.model K) G cs A a B b = kTAt (IsoClptDonnellBc3.model K) G cs B b A a :=
+  Generic.kT_symm (ShellJacobian.IsoClptDonnellBc3.ok G hL hr hc hi hn1 hn2) cs A B trivial trivial a b
+
+/-! #### clpt_sanders_bc1 -/
+
+/-- `clpt_sanders_bc1`: with no amplitudes the integrand of every component of `calc_fint_0L_L0_LL` vanishes at every point — for every
+geometry, laminate and imperfection (`castro = 0`: the imperfection enters only multiplied by amplitudes). -/
+theorem shell_fint_zero_clpt_sanders_bc1 (G : Geo K) (hL : G.L ≠ 0) (hr : G.r ≠ 0) (hc : G.cosa ≠ 0) (A : Fin 12) (a : Dof K) :
+    fintAt (ClptSandersBc1.model K) G [] A a = 0 :=
+  Generic.fint_zero (ShellJacobian.ClptSandersBc1.ok G hL hr hc) (ShellJacobian.ClptSandersBc1.eLc_zero G) A a
+
+/-- `clpt_sanders_bc1`: at ANY state `cs` (any list of amplitudes with the point values of their degrees of freedom), along ANY direction
+`ds`, the integrand of the internal-force component of ANY degree of freedom `(A, a)` is a cubic in the step `t` whose linear
+coefficient is the integrand of `(k0L + k0Lᵀ + kLL + kG)[(A, a), ·]` applied to `ds` — the regenerated tangent integrand is the
+exact derivative of the regenerated internal-force integrand, for all values of the point variables (`L, r, cos α ≠ 0`).
+PARTIAL: all degree-of-freedom types except type 2, the load-asymmetry amplitude `c[2]` (always prescribed: `conecyl.py` refuses
+`pdLA = False`), as row and as direction; for row 2 see `…_counterexample`. -/
+theorem shell_kT_is_jacobian_clpt_sanders_bc1_partial (G : Geo K) (hL : G.L ≠ 0) (hr : G.r ≠ 0) (hc : G.cosa ≠ 0) (cs ds : List (Amp 12 K)) (A : Fin 12) (hA : A ≠ 2) (hds : ∀ d ∈ ds, d.ty ≠ 2 ∨ d.c = 0) (a : Dof K) :
+    ∃ R₂ R₃ : K, ∀ t : K,
+      fintAt (ClptSandersBc1.model K) G (cs ++ ds.map (Amp.scale t)) A a =
+        fintAt (ClptSandersBc1.model K) G cs A a + t * (ds.map fun d => d.c * kTAt (ClptSandersBc1.model K) G cs A a d.ty d.d).sum
+          + t ^ 2 * R₂ + t ^ 3 * R₃ :=
+  Generic.kT_is_jacobian (ShellJacobian.ClptSandersBc1.ok G hL hr hc) cs ds A hA hds a
+
+/-- `clpt_sanders_bc1`: the tangent integrand with the roles of the two degrees of freedom exchanged is the same number.
+PARTIAL: all degree-of-freedom types except type 2, the load-asymmetry amplitude `c[2]` (always prescribed: `conecyl.py` refuses
+`pdLA = False`), for both degrees of freedom. -/
+theorem shell_kT_integrand_symm_clpt_sanders_bc1_partial (G : Geo K) (hL : G.L ≠ 0) (hr : G.r ≠ 0) (hc : G.cosa ≠ 0) (cs : List (Amp 12 K)) (A B : Fin 12) (hA : A ≠ 2) (hB : B ≠ 2) (a b : Dof K) :
+    kTAt (ClptSandersBc1.model K) G cs A a B b = kTAt (ClptSandersBc1.model K) G cs B b A a :=
+  Generic.kT_symm (ShellJacobian.ClptSandersBc1.ok G hL hr hc) cs A B hA hB a b
+
+/-! #### clpt_sanders_bc2 -/
+
+/-- `clpt_sanders_bc2`: with no amplitudes the integrand of every component of `calc_fint_0L_L0_LL` vanishes at every point — for every
+geometry, laminate and imperfection (`castro = 0`: the imperfection enters only multiplied by amplitudes). -/
+theorem shell_fint_zero_clpt_sanders_bc2 (G : Geo K) (hL : G.L ≠ 0) (hr : G.r ≠ 0) (hc : G.cosa ≠ 0) (A : Fin 12) (a : Dof K) :
+    fintAt (ClptSandersBc2.model K) G [] A a = 0 :=
+  Generic.fint_zero (ShellJacobian.ClptSandersBc2.ok G hL hr hc) (ShellJacobian.ClptSandersBc2.eLc_zero G) A a
+
+/-- `clpt_sanders_bc2`: at ANY state `cs` (any list of amplitudes with the point values of their degrees of freedom), along ANY direction
+`ds`, the integrand of the internal-force component of ANY degree of freedom `(A, a)` is a cubic in the step `t` whose linear
+coefficient is the integrand of `(k0L + k0Lᵀ + kLL + kG)[(A, a), ·]` applied to `ds` — the regenerated tangent integrand is the
+exact derivative of the regenerated internal-force integrand, for all values of the point variables (`L, r, cos α ≠ 0`).
+PARTIAL: all degree-of-freedom types except type 2, the load-asymmetry amplitude `c[2]` (always prescribed: `conecyl.py` refuses
+`pdLA = False`), as row and as direction; for row 2 see `…_counterexample`. -/
+theorem shell_kT_is_jacobian_clpt_sanders_bc2_partial (G : Geo K) (hL : G.L ≠ 0) (hr : G.r ≠ 0) (hc : G.cosa ≠ 0) (cs ds : List (Amp 12 K)) (A : Fin 12) (hA : A ≠ 2) (hds : ∀ d ∈ ds, d.ty ≠ 2 ∨ d.c = 0) (a : Dof K) :
+    ∃ R₂ R₃ : K, ∀ t : K,
+      fintAt (ClptSandersBc2.model K) G (cs ++ ds.map (Amp.scale t)) A a =
+        fintAt (ClptSandersBc2.model K) G cs A a + t * (ds.map fun d => d.c * kTAt (ClptSandersBc2.model K) G cs A a d.ty d.d).sum
+          + t ^ 2 * R₂ + t ^ 3 * R₃ :=
+  Generic.kT_is_jacobian (ShellJacobian.ClptSandersBc2.ok G hL hr hc) cs ds A hA hds a
+
+/-- `clpt_sanders_bc2`: the tangent integrand with the roles of the two degrees of freedom exchanged is the same number.
+PARTIAL: all degree-of-freedom types except type 2, the load-asymmetry amplitude `c[2]` (always prescribed: `conecyl.py` refuses
+`pdLA = False`), for both degrees of freedom. -/
+theorem shell_kT_integrand_symm_clpt_sanders_bc2_partial (G : Geo K) (hL : G.L ≠ 0) (hr : G.r ≠ 0) (hc : G.cosa ≠ 0) (cs : List (Amp 12 K)) (A B : Fin 12) (hA : A ≠ 2) (hB : B ≠ 2) (a b : Dof K) :
+    kTAt (ClptSandersBc2.model K) G cs A a B b = kTAt (ClptSandersBc2.model K) G cs B b A a :=
+  Generic.kT_symm (ShellJacobian.ClptSandersBc2.ok G hL hr hc) cs A B hA hB a b
+
+/-! #### clpt_sanders_bc3 -/
+
+/-- `clpt_sanders_bc3`: with no amplitudes the integrand of every component of `calc_fint_0L_L0_LL` vanishes at every point — for every
+geometry, laminate and imperfection (`castro = 0`: the imperfection enters only multiplied by amplitudes). -/
+theorem shell_fint_zero_clpt_sanders_bc3 (G : Geo K) (hL : G.L ≠ 0) (hr : G.r ≠ 0) (hc : G.cosa ≠ 0) (A : Fin 12) (a : Dof K) :
+    fintAt (ClptSandersBc3.model K) G [] A a = 0 :=
+  Generic.fint_zero (ShellJacobian.ClptSandersBc3.ok G hL hr hc) (ShellJacobian.ClptSandersBc3.eLc_zero G) A a
+
+/-- `clpt_sanders_bc3`: at ANY state `cs` (any list of amplitudes with the point values of their degrees of freedom), along ANY direction
+`ds`, the integrand of the internal-force component of ANY degree of freedom `(A, a)` is a cubic in the step `t` whose linear
+coefficient is the integrand of `(k0L + k0Lᵀ + kLL + kG)[(A, a), ·]` applied to `ds` — the regenerated tangent integrand is the
+exact derivative of the regenerated internal-force integrand, for all values of the point variables (`L, r, cos α ≠ 0`).
+PARTIAL: all degree-of-freedom types except type 2, the load-asymmetry amplitude `c[2]` (always prescribed: `conecyl.py` refuses
+`pdLA = False`), as row and as direction; for row 2 see `…_counterexample`. -/
+theorem shell_kT_is_jacobian_clpt_sanders_bc3_partial (G : Geo K) (hL : G.L ≠ 0) (hr : G.r ≠ 0) (hc : G.cosa ≠ 0) (cs ds : List (Amp 12 K)) (A : Fin 12) (hA : A ≠ 2) (hds : ∀ d ∈ ds, d.ty ≠ 2 ∨ d.c = 0) (a : Dof K) :
+    ∃ R₂ R₃ : K, ∀ t : K,
+      fintAt (ClptSandersBc3.model K) G (cs ++ ds.map (Amp.scale t)) A a =
+        fintAt (ClptSandersBc3.model K) G cs A a + t * (ds.map fun d => d.c * kTAt (ClptSandersBc3.model K) G cs A a d.ty d.d).sum
+          + t ^ 2 * R₂ + t ^ 3 * R₃ :=
+  Generic.kT_is_jacobian (ShellJacobian.ClptSandersBc3.ok G hL hr hc) cs ds A hA hds a
+
+/-- `clpt_sanders_bc3`: the tangent integrand with the roles of the two degrees of freedom exchanged is the same number.
+PARTIAL: all degree-of-freedom types except type 2, the load-asymmetry amplitude `c[2]` (always prescribed: `conecyl.py` refuses
+`pdLA = False`), for both degrees of freedom. -/
+theorem shell_kT_integrand_symm_clpt_sanders_bc3_partial (G : Geo K) (hL : G.L ≠ 0) (hr : G.r ≠ 0) (hc : G.cosa ≠ 0) (cs : List (Amp 12 K)) (A B : Fin 12) (hA : A ≠ 2) (hB : B ≠ 2) (a b : Dof K) :
+    kTAt (ClptSandersBc3.model K) G cs A a B b = kTAt (ClptSandersBc3.model K) G cs B b A a :=
+  Generic.kT_symm (ShellJacobian.ClptSandersBc3.ok G hL hr hc) cs A B hA hB a b
+
+/-! #### clpt_sanders_bc4 -/
+
+/-- `clpt_sanders_bc4`: with no amplitudes the integrand of every component of `calc_fint_0L_L0_LL` vanishes at every point — for every
+geometry, laminate and imperfection (`castro = 0`: the imperfection enters only multiplied by amplitudes). -/
+theorem shell_fint_zero_clpt_sanders_bc4 (G : Geo K) (hL : G.L ≠ 0) (hr : G.r ≠ 0) (hc : G.cosa ≠ 0) (A : Fin 12) (a : Dof K) :
+    fintAt (ClptSandersBc4.model K) G [] A a = 0 :=
+  Generic.fint_zero (ShellJacobian.ClptSandersBc4.ok G hL hr hc) (ShellJacobian.ClptSandersBc4.eLc_zero G) A a
+
+/-- `clpt_sanders_bc4`: at ANY state `cs` (any list of amplitudes with the point values of their degrees of freedom), along ANY direction
+`ds`, the integrand of the internal-force component of ANY degree of freedom `(A, a)` is a cubic in the step `t` whose linear
+coefficient is the integrand of `(k0L + k0Lᵀ + kLL + kG)[(A, a), ·]` applied to `ds` — the regenerated tangent integrand is the
+exact derivative of the regenerated internal-force integrand, for all values of the point variables (`L, r, cos α ≠ 0`).
+PARTIAL: all degree-of-freedom types except type 2, the load-asymmetry amplitude `c[2]` (always prescribed: `conecyl.py` refuses
+`pdLA = False`), as row and as direction; for row 2 see `…_counterexample`. -/
+theorem shell_kT_is_jacobian_clpt_sanders_bc4_partial (G : Geo K) (hL : G.L ≠ 0) (hr : G.r ≠ 0) (hc : G.cosa ≠ 0) (cs ds : List (Amp 12 K)) (A : Fin 12) (hA : A ≠ 2) (hds : ∀ d ∈ ds, d.ty ≠ 2 ∨ d.c = 0) (a : Dof K) :
+    ∃ R₂ R₃ : K, ∀ t : K,
+      fintAt (ClptSandersBc4.model K) G (cs ++ ds.map (Amp.scale t)) A a =
+        fintAt (ClptSandersBc4.model K) G cs A a + t * (ds.map fun d => d.c * kTAt (ClptSandersBc4.model K) G cs A a d.ty d.d).sum
+          + t ^ 2 * R₂ + t ^ 3 * R₃ :=
+  Generic.kT_is_jacobian (ShellJacobian.ClptSandersBc4.ok G hL hr hc) cs ds A hA hds a
+
+/-- `clpt_sanders_bc4`: the tangent integrand with the roles of the two degrees of freedom exchanged is the same number.
+PARTIAL: all degree-of-freedom types except type 2, the load-asymmetry amplitude `c[2]` (always prescribed: `conecyl.py` refuses
+`pdLA = False`), for both degrees of freedom. -/
+theorem shell_kT_integrand_symm_clpt_sanders_bc4_partial (G : Geo K) (hL : G.L ≠ 0) (hr : G.r ≠ 0) (hc : G.cosa ≠ 0) (cs : List (Amp 12 K)) (A B : Fin 12) (hA : A ≠ 2) (hB : B ≠ 2) (a b : Dof K) :
+    kTAt (ClptSandersBc4.model K) G cs A a B b = kTAt (ClptSandersBc4.model K) G cs B b A a :=
+  Generic.kT_symm (ShellJacobian.ClptSandersBc4.ok G hL hr hc) cs A B hA hB a b
+
+/-- `clpt_donnell_bc1`, MATRIX LEVEL: for the amplitude layout of the sources (any `m1, m2, n2`), any integration points, any point
+geometry / laminate / imperfection and any values of the trigonometric factors, the tangent `kT = k0 + k0L + k0Lᵀ + kLL + kG`
+that `_calc_NL_matrices` forms from the kernel outputs at the state `c` is the Jacobian of `fint = fint_NL + k0·c`:
+`fint(c + t·d) = fint(c) + t·kT(c)·d + t²·R(t)`.  This discharges the hypothesis `hJ` of `tangent_is_jacobian_glue`
+(kernel outputs modelled by `k0Lmat`, `kLLmat`, `kGmat`, `fNLq`: quadrature of the regenerated integrands at the positions
+of the regenerated schema). -/
+theorem shell_tangent_is_jacobian_clpt_donnell_bc1 (m1 m2 n2 : Nat) (geo : K → K → Geo K) (sinx cosx sint cost : Nat → K → K)
+    (pts : List (Pt K)) (hgeo : ∀ p ∈ pts, (geo p.x p.y).L ≠ 0 ∧ (geo p.x p.y).r ≠ 0 ∧ (geo p.x p.y).cosa ≠ 0)
+    (k0 : Mat K) (c d : Vec K) :
+    ∃ R : K → Vec K, ∀ (t : K) (i : Nat), fint (stdAsm m1 m2 n2 geo sinx cosx sint cost ClptDonnellBc1.schema_k0L ClptDonnellBc1.schema_kLL ClptDonnellBc1.schema_kG).n k0 (fNLq (ClptDonnellBc1.model K) (stdAsm m1 m2 n2 geo sinx cosx sint cost ClptDonnellBc1.schema_k0L ClptDonnellBc1.schema_kLL ClptDonnellBc1.schema_kG).toLayout pts) (fun j => c j + t * d j) i =
+        fint (stdAsm m1 m2 n2 geo sinx cosx sint cost ClptDonnellBc1.schema_k0L ClptDonnellBc1.schema_kLL ClptDonnellBc1.schema_kG).n k0 (fNLq (ClptDonnellBc1.model K) (stdAsm m1 m2 n2 geo sinx cosx sint cost ClptDonnellBc1.schema_k0L ClptDonnellBc1.schema_kLL ClptDonnellBc1.schema_kG).toLayout pts) c i
+          + t * sumTo (stdAsm m1 m2 n2 geo sinx cosx sint cost ClptDonnellBc1.schema_k0L ClptDonnellBc1.schema_kLL ClptDonnellBc1.schema_kG).n (fun j => kT (asmParts (ClptDonnellBc1.model K) (stdAsm m1 m2 n2 geo sinx cosx sint cost ClptDonnellBc1.schema_k0L ClptDonnellBc1.schema_kLL ClptDonnellBc1.schema_kG) pts k0 c) true true i j * d j)
+          + t ^ 2 * R t i := by
+  obtain ⟨R, hR⟩ := tangent_is_jacobian_assembled (ClptDonnellBc1.model K) (stdAsm m1 m2 n2 geo sinx cosx sint cost ClptDonnellBc1.schema_k0L ClptDonnellBc1.schema_kLL ClptDonnellBc1.schema_kG) pts ShellJacobian.ClptDonnellBc1.good
+    (fun p hp => ShellJacobian.ClptDonnellBc1.ok _ (hgeo p hp).1 (hgeo p hp).2.1 (hgeo p hp).2.2)
+    (stdAsm_ok _ ShellJacobian.ClptDonnellBc1.cls_eq _ _ _ _ _ _ _ _ _ _ _) (skipOf_false _ ShellJacobian.ClptDonnellBc1.k0L_noskip) k0 c d (fun _ => Or.inl trivial)
+  exact ⟨R, fun t i => hR t i trivial⟩
+
+/-- `clpt_donnell_bc2`, MATRIX LEVEL: for the amplitude layout of the sources (any `m1, m2, n2`), any integration points, any point
+geometry / laminate / imperfection and any values of the trigonometric factors, the tangent `kT = k0 + k0L + k0Lᵀ + kLL + kG`
+that `_calc_NL_matrices` forms from the kernel outputs at the state `c` is the Jacobian of `fint = fint_NL + k0·c`:
+`fint(c + t·d) = fint(c) + t·kT(c)·d + t²·R(t)`.  This discharges the hypothesis `hJ` of `tangent_is_jacobian_glue`
+(kernel outputs modelled by `k0Lmat`, `kLLmat`, `kGmat`, `fNLq`: quadrature of the regenerated integrands at the positions
+of the regenerated schema). -/
+theorem shell_tangent_is_jacobian_clpt_donnell_bc2 (m1 m2 n2 : Nat) (geo : K → K → Geo K) (sinx cosx sint cost : Nat → K → K)
+    (pts : List (Pt K)) (hgeo : ∀ p ∈ pts, (geo p.x p.y).L ≠ 0 ∧ (geo p.x p.y).r ≠ 0 ∧ (geo p.x p.y).cosa ≠ 0)
+    (k0 : Mat K) (c d : Vec K) :
+    ∃ R : K → Vec K, ∀ (t : K) (i : Nat), fint (stdAsm m1 m2 n2 geo sinx cosx sint cost ClptDonnellBc2.schema_k0L ClptDonnellBc2.schema_kLL ClptDonnellBc2.schema_kG).n k0 (fNLq (ClptDonnellBc2.model K) (stdAsm m1 m2 n2 geo sinx cosx sint cost ClptDonnellBc2.schema_k0L ClptDonnellBc2.schema_kLL ClptDonnellBc2.schema_kG).toLayout pts) (fun j => c j + t * d j) i =
+        fint (stdAsm m1 m2 n2 geo sinx cosx sint cost ClptDonnellBc2.schema_k0L ClptDonnellBc2.schema_kLL ClptDonnellBc2.schema_kG).n k0 (fNLq (ClptDonnellBc2.model K) (stdAsm m1 m2 n2 geo sinx cosx sint cost ClptDonnellBc2.schema_k0L ClptDonnellBc2.schema_kLL ClptDonnellBc2.schema_kG).toLayout pts) c i
+          + t * sumTo (stdAsm m1 m2 n2 geo sinx cosx sint cost ClptDonnellBc2.schema_k0L ClptDonnellBc2.schema_kLL ClptDonnellBc2.schema_kG).n (fun j => kT (asmParts (ClptDonnellBc2.model K) (stdAsm m1 m2 n2 geo sinx cosx sint cost ClptDonnellBc2.schema_k0L ClptDonnellBc2.schema_kLL ClptDonnellBc2.schema_kG) pts k0 c) true true i j * d j)
+          + t ^ 2 * R t i := by
+  obtain ⟨R, hR⟩ := tangent_is_jacobian_assembled (ClptDonnellBc2.model K) (stdAsm m1 m2 n2 geo sinx cosx sint cost ClptDonnellBc2.schema_k0L ClptDonnellBc2.schema_kLL ClptDonnellBc2.schema_kG) pts ShellJacobian.ClptDonnellBc2.good
+    (fun p hp => ShellJacobian.ClptDonnellBc2.ok _ (hgeo p hp).1 (hgeo p hp).2.1 (hgeo p hp).2.2)
+    (stdAsm_ok _ ShellJacobian.ClptDonnellBc2.cls_eq _ _ _ _ _ _ _ _ _ _ _) (skipOf_false _ ShellJacobian.ClptDonnellBc2.k0L_noskip) k0 c d (fun _ => Or.inl trivial)
+  exact ⟨R, fun t i => hR t i trivial⟩
+
+/-- `clpt_donnell_bc3`, MATRIX LEVEL: for the amplitude layout of the sources (any `m1, m2, n2`), any integration points, any point
+geometry / laminate / imperfection and any values of the trigonometric factors, the tangent `kT = k0 + k0L + k0Lᵀ + kLL + kG`
+that `_calc_NL_matrices` forms from the kernel outputs at the state `c` is the Jacobian of `fint = fint_NL + k0·c`:
+`fint(c + t·d) = fint(c) + t·kT(c)·d + t²·R(t)`.  This discharges the hypothesis `hJ` of `tangent_is_jacobian_glue`
+(kernel outputs modelled by `k0Lmat`, `kLLmat`, `kGmat`, `fNLq`: quadrature of the regenerated integrands at the positions
+of the regenerated schema). -/
+theorem shell_tangent_is_jacobian_clpt_donnell_bc3 (m1 m2 n2 : Nat) (geo : K → K → Geo K) (sinx cosx sint cost : Nat → K → K)
+    (pts : List (Pt K)) (hgeo : ∀ p ∈ pts, (geo p.x p.y).L ≠ 0 ∧ (geo p.x p.y).r ≠ 0 ∧ (geo p.x p.y).cosa ≠ 0)
+    (k0 : Mat K) (c d : Vec K) :
+    ∃ R : K → Vec K, ∀ (t : K) (i : Nat), fint (stdAsm m1 m2 n2 geo sinx cosx sint cost ClptDonnellBc3.schema_k0L ClptDonnellBc3.schema_kLL ClptDonnellBc3.schema_kG).n k0 (fNLq (ClptDonnellBc3.model K) (stdAsm m1 m2 n2 geo sinx cosx sint cost ClptDonnellBc3.schema_k0L ClptDonnellBc3.schema_kLL ClptDonnellBc3.schema_kG).toLayout pts) (fun j => c j + t * d j) i =
+        fint (stdAsm m1 m2 n2 geo sinx cosx sint cost ClptDonnellBc3.schema_k0L ClptDonnellBc3.schema_kLL ClptDonnellBc3.schema_kG).n k0 (fNLq (ClptDonnellBc3.model K) (stdAsm m1 m2 n2 geo sinx cosx sint cost ClptDonnellBc3.schema_k0L ClptDonnellBc3.schema_kLL ClptDonnellBc3.schema_kG).toLayout pts) c i
+          + t * sumTo (stdAsm m1 m2 n2 geo sinx cosx sint cost ClptDonnellBc3.schema_k0L ClptDonnellBc3.schema_kLL ClptDonnellBc3.schema_kG).n (fun j => kT (asmParts (ClptDonnellBc3.model K) (stdAsm m1 m2 n2 geo sinx cosx sint cost ClptDonnellBc3.schema_k0L ClptDonnellBc3.schema_kLL ClptDonnellBc3.schema_kG) pts k0 c) true true i j * d j)
+          + t ^ 2 * R t i := by
+  obtain ⟨R, hR⟩ := tangent_is_jacobian_assembled (ClptDonnellBc3.model K) (stdAsm m1 m2 n2 geo sinx cosx sint cost ClptDonnellBc3.schema_k0L ClptDonnellBc3.schema_kLL ClptDonnellBc3.schema_kG) pts ShellJacobian.ClptDonnellBc3.good
+    (fun p hp => ShellJacobian.ClptDonnellBc3.ok _ (hgeo p hp).1 (hgeo p hp).2.1 (hgeo p hp).2.2)
+    (stdAsm_ok _ ShellJacobian.ClptDonnellBc3.cls_eq _ _ _ _ _ _ _ _ _ _ _) (skipOf_false _ ShellJacobian.ClptDonnellBc3.k0L_noskip) k0 c d (fun _ => Or.inl trivial)
+  exact ⟨R, fun t i => hR t i trivial⟩
+
+/-- `clpt_donnell_bc4`, MATRIX LEVEL: for the amplitude layout of the sources (any `m1, m2, n2`), any integration points, any point
+geometry / laminate / imperfection and any values of the trigonometric factors, the tangent `kT = k0 + k0L + k0Lᵀ + kLL + kG`
+that `_calc_NL_matrices` forms from the kernel outputs at the state `c` is the Jacobian of `fint = fint_NL + k0·c`:
+`fint(c + t·d) = fint(c) + t·kT(c)·d + t²·R(t)`.  This discharges the hypothesis `hJ` of `tangent_is_jacobian_glue`
+(kernel outputs modelled by `k0Lmat`, `kLLmat`, `kGmat`, `fNLq`: quadrature of the regenerated integrands at the positions
+of the regenerated schema). -/
+theorem shell_tangent_is_jacobian_clpt_donnell_bc4 (m1 m2 n2 : Nat) (geo : K → K → Geo K) (sinx cosx sint cost : Nat → K → K)
+    (pts : List (Pt K)) (hgeo : ∀ p ∈ pts, (geo p.x p.y).L ≠ 0 ∧ (geo p.x p.y).r ≠ 0 ∧ (geo p.x p.y).cosa ≠ 0)
+    (k0 : Mat K) (c d : Vec K) :
+    ∃ R : K → Vec K, ∀ (t : K) (i : Nat), fint (stdAsm m1 m2 n2 geo sinx cosx sint cost ClptDonnellBc4.schema_k0L ClptDonnellBc4.schema_kLL ClptDonnellBc4.schema_kG).n k0 (fNLq (ClptDonnellBc4.model K) (stdAsm m1 m2 n2 geo sinx cosx sint cost ClptDonnellBc4.schema_k0L ClptDonnellBc4.schema_kLL ClptDonnellBc4.schema_kG).toLayout pts) (fun j => c j + t * d j) i =
+        fint (stdAsm m1 m2 n2 geo sinx cosx sint cost ClptDonnellBc4.schema_k0L ClptDonnellBc4.schema_kLL ClptDonnellBc4.schema_kG).n k0 (fNLq (ClptDonnellBc4.model K) (stdAsm m1 m2 n2 geo sinx cosx sint cost ClptDonnellBc4.schema_k0L ClptDonnellBc4.schema_kLL ClptDonnellBc4.schema_kG).toLayout pts) c i
+          + t * sumTo (stdAsm m1 m2 n2 geo sinx cosx sint cost ClptDonnellBc4.schema_k0L ClptDonnellBc4.schema_kLL ClptDonnellBc4.schema_kG).n (fun j => kT (asmParts (ClptDonnellBc4.model K) (stdAsm m1 m2 n2 geo sinx cosx sint cost ClptDonnellBc4.schema_k0L ClptDonnellBc4.schema_kLL ClptDonnellBc4.schema_kG) pts k0 c) true true i j * d j)
+          + t ^ 2 * R t i := by
+  obtain ⟨R, hR⟩ := tangent_is_jacobian_assembled (ClptDonnellBc4.model K) (stdAsm m1 m2 n2 geo sinx cosx sint cost ClptDonnellBc4.schema_k0L ClptDonnellBc4.schema_kLL ClptDonnellBc4.schema_kG) pts ShellJacobian.ClptDonnellBc4.good
+    (fun p hp => ShellJacobian.ClptDonnellBc4.ok _ (hgeo p hp).1 (hgeo p hp).2.1 (hgeo p hp).2.2)
+    (stdAsm_ok _ ShellJacobian.ClptDonnellBc4.cls_eq _ _ _ _ _ _ _ _ _ _ _) (skipOf_false _ ShellJacobian.ClptDonnellBc4.k0L_noskip) k0 c d (fun _ => Or.inl trivial)
+  exact ⟨R, fun t i => hR t i trivial⟩
+
+/-- `iso_clpt_donnell_bc2`, MATRIX LEVEL: for the amplitude layout of the sources (any `m1, m2, n2`), any integration points, any point
+geometry / laminate / imperfection and any values of the trigonometric factors, the tangent `kT = k0 + k0L + k0Lᵀ + kLL + kG`
+that `_calc_NL_matrices` forms from the kernel outputs at the state `c` is the Jacobian of `fint = fint_NL + k0·c`:
+`fint(c + t·d) = fint(c) + t·kT(c)·d + t²·R(t)`.  This discharges the hypothesis `hJ` of `tangent_is_jacobian_glue`
+(kernel outputs modelled by `k0Lmat`, `kLLmat`, `kGmat`, `fNLq`: quadrature of the regenerated integrands at the positions
+of the regenerated schema). -/
+theorem shell_tangent_is_jacobian_iso_clpt_donnell_bc2 (m1 m2 n2 : Nat) (geo : K → K → Geo K) (sinx cosx sint cost : Nat → K → K)
+    (pts : List (Pt K)) (hgeo : ∀ p ∈ pts, (geo p.x p.y).L ≠ 0 ∧ (geo p.x p.y).r ≠ 0 ∧ (geo p.x p.y).cosa ≠ 0 ∧ (geo p.x p.y).IsoLam ∧ (geo p.x p.y).nu + 1 ≠ 0 ∧ (geo p.x p.y).nu - 1 ≠ 0)
+    (k0 : Mat K) (c d : Vec K) :
+    ∃ R : K → Vec K, ∀ (t : K) (i : Nat), fint (stdAsm m1 m2 n2 geo sinx cosx sint cost IsoClptDonnellBc2.schema_k0L IsoClptDonnellBc2.schema_kLL IsoClptDonnellBc2.schema_kG).n k0 (fNLq (IsoClptDonnellBc2.model K) (stdAsm m1 m2 n2 geo sinx cosx sint cost IsoClptDonnellBc2.schema_k0L IsoClptDonnellBc2.schema_kLL IsoClptDonnellBc2.schema_kG).toLayout pts) (fun j => c j + t * d j) i =
+        fint (stdAsm m1 m2 n2 geo sinx cosx sint cost IsoClptDonnellBc2.schema_k0L IsoClptDonnellBc2.schema_kLL IsoClptDonnellBc2.schema_kG).n k0 (fNLq (IsoClptDonnellBc2.model K) (stdAsm m1 m2 n2 geo sinx cosx sint cost IsoClptDonnellBc2.schema_k0L IsoClptDonnellBc2.schema_kLL IsoClptDonnellBc2.schema_kG).toLayout pts) c i
+          + t * sumTo (stdAsm m1 m2 n2 geo sinx cosx sint cost IsoClptDonnellBc2.schema_k0L IsoClptDonnellBc2.schema_kLL IsoClptDonnellBc2.schema_kG).n (fun j => kT (asmParts (IsoClptDonnellBc2.model K) (stdAsm m1 m2 n2 geo sinx cosx sint cost IsoClptDonnellBc2.schema_k0L IsoClptDonnellBc2.schema_kLL IsoClptDonnellBc2.schema_kG) pts k0 c) true true i j * d j)
+          + t ^ 2 * R t i := by
+  obtain ⟨R, hR⟩ := tangent_is_jacobian_assembled (IsoClptDonnellBc2.model K) (stdAsm m1 m2 n2 geo sinx cosx sint cost IsoClptDonnellBc2.schema_k0L IsoClptDonnellBc2.schema_kLL IsoClptDonnellBc2.schema_kG) pts ShellJacobian.IsoClptDonnellBc2.good
+    (fun p hp => ShellJacobian.IsoClptDonnellBc2.ok _ (hgeo p hp).1 (hgeo p hp).2.1 (hgeo p hp).2.2.1 (hgeo p hp).2.2.2.1 (hgeo p hp).2.2.2.2.1 (hgeo p hp).2.2.2.2.2)
+    (stdAsm_ok _ ShellJacobian.IsoClptDonnellBc2.cls_eq _ _ _ _ _ _ _ _ _ _ _) (skipOf_false _ ShellJacobian.IsoClptDonnellBc2.k0L_noskip) k0 c d (fun _ => Or.inl trivial)
+  exact ⟨R, fun t i => hR t i trivial⟩
+
+/-- `iso_clpt_donnell_bc3`, MATRIX LEVEL: for the amplitude layout of the sources (any `m1, m2, n2`), any integration points, any point
+geometry / laminate / imperfection and any values of the trigonometric factors, the tangent `kT = k0 + k0L + k0Lᵀ + kLL + kG`
+that `_calc_NL_matrices` forms from the kernel outputs at the state `c` is the Jacobian of `fint = fint_NL + k0·c`:
+`fint(c + t·d) = fint(c) + t·kT(c)·d + t²·R(t)`.  This discharges the hypothesis `hJ` of `tangent_is_jacobian_glue`
+(kernel outputs modelled by `k0Lmat`, `kLLmat`, `kGmat`, `fNLq`: quadrature of the regenerated integrands at the positions
+of the regenerated schema). -/
+theorem shell_tangent_is_jacobian_iso_clpt_donnell_bc3 (m1 m2 n2 : Nat) (geo : K → K → Geo K) (sinx cosx sint cost : Nat → K → K)
+    (pts : List (Pt K)) (hgeo : ∀ p ∈ pts, (geo p.x p.y).L ≠ 0 ∧ (geo p.x p.y).r ≠ 0 ∧ (geo p.x p.y).cosa ≠ 0 ∧ (geo p.x p.y).IsoLam ∧ (geo p.x p.y).nu + 1 ≠ 0 ∧ (geo p.x p.y).nu - 1 ≠ 0)
+    (k0 : Mat K) (c d : Vec K) :
+    ∃ R : K → Vec K, ∀ (t : K) (i : Nat), fint (stdAsm m1 m2 n2 geo sinx cosx sint cost IsoClptDonnellBc3.schema_k0L IsoClptDonnellBc3.schema_kLL IsoClptDonnellBc3.schema_kG).n k0 (fNLq (IsoClptDonnellBc3.model K) (stdAsm m1 m2 n2 geo sinx cosx sint cost IsoClptDonnellBc3.schema_k0L IsoClptDonnellBc3.schema_kLL IsoClptDonnellBc3.schema_kG).toLayout pts) (fun j => c j + t * d j) i =
+        fint (stdAsm m1 m2 n2 geo sinx cosx sint cost IsoClptDonnellBc3.schema_k0L IsoClptDonnellBc3.schema_kLL IsoClptDonnellBc3.schema_kG).n k0 (fNLq (IsoClptDonnellBc3.model K) (stdAsm m1 m2 n2 geo sinx cosx sint cost IsoClptDonnellBc3.schema_k0L IsoClptDonnellBc3.schema_kLL IsoClptDonnellBc3.schema_kG).toLayout pts) c i
+          + t * sumTo (stdAsm m1 m2 n2 geo sinx cosx sint cost IsoClptDonnellBc3.schema_k0L IsoClptDonnellBc3.schema_kLL IsoClptDonnellBc3.schema_kG).n (fun j => kT (asmParts (IsoClptDonnellBc3.model K) (stdAsm m1 m2 n2 geo sinx cosx sint cost IsoClptDonnellBc3.schema_k0L IsoClptDonnellBc3.schema_kLL IsoClptDonnellBc3.schema_kG) pts k0 c) true true i j * d j)
+          + t ^ 2 * R t i := by
+  obtain ⟨R, hR⟩ := tangent_is_jacobian_assembled (IsoClptDonnellBc3.model K) (stdAsm m1 m2 n2 geo sinx cosx sint cost IsoClptDonnellBc3.schema_k0L IsoClptDonnellBc3.schema_kLL IsoClptDonnellBc3.schema_kG) pts ShellJacobian.IsoClptDonnellBc3.good
+    (fun p hp => ShellJacobian.IsoClptDonnellBc3.ok _ (hgeo p hp).1 (hgeo p hp).2.1 (hgeo p hp).2.2.1 (hgeo p hp).2.2.2.1 (hgeo p hp).2.2.2.2.1 (hgeo p hp).2.2.2.2.2)
+    (stdAsm_ok _ ShellJacobian.IsoClptDonnellBc3.cls_eq _ _ _ _ _ _ _ _ _ _ _) (skipOf_false _ ShellJacobian.IsoClptDonnellBc3.k0L_noskip) k0 c d (fun _ => Or.inl trivial)
+  exact ⟨R, fun t i => hR t i trivial⟩
+
+/-- `clpt_sanders_bc1`, MATRIX LEVEL: for the amplitude layout of the sources (any `m1, m2, n2`), any integration points, any point
+geometry / laminate / imperfection and any values of the trigonometric factors, the tangent `kT = k0 + k0L + k0Lᵀ + kLL + kG`
+that `_calc_NL_matrices` forms from the kernel outputs at the state `c` is the Jacobian of `fint = fint_NL + k0·c`:
+`fint(c + t·d) = fint(c) + t·kT(c)·d + t²·R(t)`.  This discharges the hypothesis `hJ` of `tangent_is_jacobian_glue`
+(kernel outputs modelled by `k0Lmat`, `kLLmat`, `kGmat`, `fNLq`: quadrature of the regenerated integrands at the positions
+of the regenerated schema).
+PARTIAL: components and directions of all types except the always-prescribed load-asymmetry amplitude (global index 2). -/
+theorem shell_tangent_is_jacobian_clpt_sanders_bc1_partial (m1 m2 n2 : Nat) (geo : K → K → Geo K) (sinx cosx sint cost : Nat → K → K)
+    (pts : List (Pt K)) (hgeo : ∀ p ∈ pts, (geo p.x p.y).L ≠ 0 ∧ (geo p.x p.y).r ≠ 0 ∧ (geo p.x p.y).cosa ≠ 0)
+    (k0 : Mat K) (c d : Vec K) (hd : ∀ j, stdTy m1 j ≠ 2 ∨ d j = 0) :
+    ∃ R : K → Vec K, ∀ (t : K) (i : Nat), stdTy m1 i ≠ 2 →
+      fint (stdAsm m1 m2 n2 geo sinx cosx sint cost ClptSandersBc1.schema_k0L ClptSandersBc1.schema_kLL ClptSandersBc1.schema_kG).n k0 (fNLq (ClptSandersBc1.model K) (stdAsm m1 m2 n2 geo sinx cosx sint cost ClptSandersBc1.schema_k0L ClptSandersBc1.schema_kLL ClptSandersBc1.schema_kG).toLayout pts) (fun j => c j + t * d j) i =
+        fint (stdAsm m1 m2 n2 geo sinx cosx sint cost ClptSandersBc1.schema_k0L ClptSandersBc1.schema_kLL ClptSandersBc1.schema_kG).n k0 (fNLq (ClptSandersBc1.model K) (stdAsm m1 m2 n2 geo sinx cosx sint cost ClptSandersBc1.schema_k0L ClptSandersBc1.schema_kLL ClptSandersBc1.schema_kG).toLayout pts) c i
+          + t * sumTo (stdAsm m1 m2 n2 geo sinx cosx sint cost ClptSandersBc1.schema_k0L ClptSandersBc1.schema_kLL ClptSandersBc1.schema_kG).n (fun j => kT (asmParts (ClptSandersBc1.model K) (stdAsm m1 m2 n2 geo sinx cosx sint cost ClptSandersBc1.schema_k0L ClptSandersBc1.schema_kLL ClptSandersBc1.schema_kG) pts k0 c) true true i j * d j)
+          + t ^ 2 * R t i := by
+  obtain ⟨R, hR⟩ := tangent_is_jacobian_assembled (ClptSandersBc1.model K) (stdAsm m1 m2 n2 geo sinx cosx sint cost ClptSandersBc1.schema_k0L ClptSandersBc1.schema_kLL ClptSandersBc1.schema_kG) pts ShellJacobian.ClptSandersBc1.good
+    (fun p hp => ShellJacobian.ClptSandersBc1.ok _ (hgeo p hp).1 (hgeo p hp).2.1 (hgeo p hp).2.2)
+    (stdAsm_ok _ ShellJacobian.ClptSandersBc1.cls_eq _ _ _ _ _ _ _ _ _ _ _) (skipOf_false _ ShellJacobian.ClptSandersBc1.k0L_noskip) k0 c d hd
+  exact ⟨R, fun t i hi => hR t i hi⟩
+
+/-- `clpt_sanders_bc3`, MATRIX LEVEL: for the amplitude layout of the sources (any `m1, m2, n2`), any integration points, any point
+geometry / laminate / imperfection and any values of the trigonometric factors, the tangent `kT = k0 + k0L + k0Lᵀ + kLL + kG`
+that `_calc_NL_matrices` forms from the kernel outputs at the state `c` is the Jacobian of `fint = fint_NL + k0·c`:
+`fint(c + t·d) = fint(c) + t·kT(c)·d + t²·R(t)`.  This discharges the hypothesis `hJ` of `tangent_is_jacobian_glue`
+(kernel outputs modelled by `k0Lmat`, `kLLmat`, `kGmat`, `fNLq`: quadrature of the regenerated integrands at the positions
+of the regenerated schema).
+PARTIAL: components and directions of all types except the always-prescribed load-asymmetry amplitude (global index 2); and `kGmat` is evaluated at the
+resultants `N₀ + N_L` of `cffint`, which is NOT what `cfN` of `clpt_commons_bc3` hands to `cfkG` (`shell_kernel_inputs_clpt_sanders_bc3_counterexample`). -/
+theorem shell_tangent_is_jacobian_clpt_sanders_bc3_partial (m1 m2 n2 : Nat) (geo : K → K → Geo K) (sinx cosx sint cost : Nat → K → K)
+    (pts : List (Pt K)) (hgeo : ∀ p ∈ pts, (geo p.x p.y).L ≠ 0 ∧ (geo p.x p.y).r ≠ 0 ∧ (geo p.x p.y).cosa ≠ 0)
+    (k0 : Mat K) (c d : Vec K) (hd : ∀ j, stdTy m1 j ≠ 2 ∨ d j = 0) :
+    ∃ R : K → Vec K, ∀ (t : K) (i : Nat), stdTy m1 i ≠ 2 →
+      fint (stdAsm m1 m2 n2 geo sinx cosx sint cost ClptSandersBc3.schema_k0L ClptSandersBc3.schema_kLL ClptSandersBc3.schema_kG).n k0 (fNLq (ClptSandersBc3.model K) (stdAsm m1 m2 n2 geo sinx cosx sint cost ClptSandersBc3.schema_k0L ClptSandersBc3.schema_kLL ClptSandersBc3.schema_kG).toLayout pts) (fun j => c j + t * d j) i =
+        fint (stdAsm m1 m2 n2 geo sinx cosx sint cost ClptSandersBc3.schema_k0L ClptSandersBc3.schema_kLL ClptSandersBc3.schema_kG).n k0 (fNLq (ClptSandersBc3.model K) (stdAsm m1 m2 n2 geo sinx cosx sint cost ClptSandersBc3.schema_k0L ClptSandersBc3.schema_kLL ClptSandersBc3.schema_kG).toLayout pts) c i
+          + t * sumTo (stdAsm m1 m2 n2 geo sinx cosx sint cost ClptSandersBc3.schema_k0L ClptSandersBc3.schema_kLL ClptSandersBc3.schema_kG).n (fun j => kT (asmParts (ClptSandersBc3.model K) (stdAsm m1 m2 n2 geo sinx cosx sint cost ClptSandersBc3.schema_k0L ClptSandersBc3.schema_kLL ClptSandersBc3.schema_kG) pts k0 c) true true i j * d j)
+          + t ^ 2 * R t i := by
+  obtain ⟨R, hR⟩ := tangent_is_jacobian_assembled (ClptSandersBc3.model K) (stdAsm m1 m2 n2 geo sinx cosx sint cost ClptSandersBc3.schema_k0L ClptSandersBc3.schema_kLL ClptSandersBc3.schema_kG) pts ShellJacobian.ClptSandersBc3.good
+    (fun p hp => ShellJacobian.ClptSandersBc3.ok _ (hgeo p hp).1 (hgeo p hp).2.1 (hgeo p hp).2.2)
+    (stdAsm_ok _ ShellJacobian.ClptSandersBc3.cls_eq _ _ _ _ _ _ _ _ _ _ _) (skipOf_false _ ShellJacobian.ClptSandersBc3.k0L_noskip) k0 c d hd
+  exact ⟨R, fun t i hi => hR t i hi⟩
+
+/-- `clpt_sanders_bc4`, MATRIX LEVEL: for the amplitude layout of the sources (any `m1, m2, n2`), any integration points, any point
+geometry / laminate / imperfection and any values of the trigonometric factors, the tangent `kT = k0 + k0L + k0Lᵀ + kLL + kG`
+that `_calc_NL_matrices` forms from the kernel outputs at the state `c` is the Jacobian of `fint = fint_NL + k0·c`:
+`fint(c + t·d) = fint(c) + t·kT(c)·d + t²·R(t)`.  This discharges the hypothesis `hJ` of `tangent_is_jacobian_glue`
+(kernel outputs modelled by `k0Lmat`, `kLLmat`, `kGmat`, `fNLq`: quadrature of the regenerated integrands at the positions
+of the regenerated schema).
+PARTIAL: components and directions of all types except the always-prescribed load-asymmetry amplitude (global index 2). -/
+theorem shell_tangent_is_jacobian_clpt_sanders_bc4_partial (m1 m2 n2 : Nat) (geo : K → K → Geo K) (sinx cosx sint cost : Nat → K → K)
+    (pts : List (Pt K)) (hgeo : ∀ p ∈ pts, (geo p.x p.y).L ≠ 0 ∧ (geo p.x p.y).r ≠ 0 ∧ (geo p.x p.y).cosa ≠ 0)
+    (k0 : Mat K) (c d : Vec K) (hd : ∀ j, stdTy m1 j ≠ 2 ∨ d j = 0) :
+    ∃ R : K → Vec K, ∀ (t : K) (i : Nat), stdTy m1 i ≠ 2 →
+      fint (stdAsm m1 m2 n2 geo sinx cosx sint cost ClptSandersBc4.schema_k0L ClptSandersBc4.schema_kLL ClptSandersBc4.schema_kG).n k0 (fNLq (ClptSandersBc4.model K) (stdAsm m1 m2 n2 geo sinx cosx sint cost ClptSandersBc4.schema_k0L ClptSandersBc4.schema_kLL ClptSandersBc4.schema_kG).toLayout pts) (fun j => c j + t * d j) i =
+        fint (stdAsm m1 m2 n2 geo sinx cosx sint cost ClptSandersBc4.schema_k0L ClptSandersBc4.schema_kLL ClptSandersBc4.schema_kG).n k0 (fNLq (ClptSandersBc4.model K) (stdAsm m1 m2 n2 geo sinx cosx sint cost ClptSandersBc4.schema_k0L ClptSandersBc4.schema_kLL ClptSandersBc4.schema_kG).toLayout pts) c i
+          + t * sumTo (stdAsm m1 m2 n2 geo sinx cosx sint cost ClptSandersBc4.schema_k0L ClptSandersBc4.schema_kLL ClptSandersBc4.schema_kG).n (fun j => kT (asmParts (ClptSandersBc4.model K) (stdAsm m1 m2 n2 geo sinx cosx sint cost ClptSandersBc4.schema_k0L ClptSandersBc4.schema_kLL ClptSandersBc4.schema_kG) pts k0 c) true true i j * d j)
+          + t ^ 2 * R t i := by
+  obtain ⟨R, hR⟩ := tangent_is_jacobian_assembled (ClptSandersBc4.model K) (stdAsm m1 m2 n2 geo sinx cosx sint cost ClptSandersBc4.schema_k0L ClptSandersBc4.schema_kLL ClptSandersBc4.schema_kG) pts ShellJacobian.ClptSandersBc4.good
+    (fun p hp => ShellJacobian.ClptSandersBc4.ok _ (hgeo p hp).1 (hgeo p hp).2.1 (hgeo p hp).2.2)
+    (stdAsm_ok _ ShellJacobian.ClptSandersBc4.cls_eq _ _ _ _ _ _ _ _ _ _ _) (skipOf_false _ ShellJacobian.ClptSandersBc4.k0L_noskip) k0 c d hd
+  exact ⟨R, fun t i hi => hR t i hi⟩
+
+/-- `clpt_donnell_bc1`: the matrix kernels are fed the state of `cffint` — the slopes `cfwx`, `cfwt` of `the commons module` return for `cfk0L` / `cfkLL`
+and the membrane resultants `cfN` returns for `cfkG` are, at any amplitudes, the slopes and `N₀ + N_L` that `cffint` accumulates. -/
+theorem shell_kernel_inputs_clpt_donnell_bc1 (G : Geo K) (hL : G.L ≠ 0) (hr : G.r ≠ 0) (hc : G.cosa ≠ 0) (cs : List (Amp 12 K)) :
+    (ClptDonnellBc1.commons.cmodel K).slopesAt G cs = slopesOf (ClptDonnellBc1.model K) G cs ∧
+      (ClptDonnellBc1.commons.cmodel K).resGAt G cs = (resOf (ClptDonnellBc1.model K) G cs).toG :=
+  ⟨Generic.commons_slopes (ShellJacobian.ClptDonnellBc1.cok G hL hr hc) cs,
+   Generic.commons_resG (ShellJacobian.ClptDonnellBc1.ok G hL hr hc) (ShellJacobian.ClptDonnellBc1.cok G hL hr hc) cs⟩
+
+/-- `clpt_donnell_bc2`: the matrix kernels are fed the state of `cffint` — the slopes `cfwx`, `cfwt` of `the commons module` return for `cfk0L` / `cfkLL`
+and the membrane resultants `cfN` returns for `cfkG` are, at any amplitudes, the slopes and `N₀ + N_L` that `cffint` accumulates. -/
+theorem shell_kernel_inputs_clpt_donnell_bc2 (G : Geo K) (hL : G.L ≠ 0) (hr : G.r ≠ 0) (hc : G.cosa ≠ 0) (cs : List (Amp 12 K)) :
+    (ClptDonnellBc2.commons.cmodel K).slopesAt G cs = slopesOf (ClptDonnellBc2.model K) G cs ∧
+      (ClptDonnellBc2.commons.cmodel K).resGAt G cs = (resOf (ClptDonnellBc2.model K) G cs).toG :=
+  ⟨Generic.commons_slopes (ShellJacobian.ClptDonnellBc2.cok G hL hr hc) cs,
+   Generic.commons_resG (ShellJacobian.ClptDonnellBc2.ok G hL hr hc) (ShellJacobian.ClptDonnellBc2.cok G hL hr hc) cs⟩
+
+/-- `clpt_donnell_bc3`: the matrix kernels are fed the state of `cffint` — the slopes `cfwx`, `cfwt` of `the commons module` return for `cfk0L` / `cfkLL`
+and the membrane resultants `cfN` returns for `cfkG` are, at any amplitudes, the slopes and `N₀ + N_L` that `cffint` accumulates. -/
+theorem shell_kernel_inputs_clpt_donnell_bc3 (G : Geo K) (hL : G.L ≠ 0) (hr : G.r ≠ 0) (hc : G.cosa ≠ 0) (cs : List (Amp 12 K)) :
+    (ClptDonnellBc3.commons.cmodel K).slopesAt G cs = slopesOf (ClptDonnellBc3.model K) G cs ∧
+      (ClptDonnellBc3.commons.cmodel K).resGAt G cs = (resOf (ClptDonnellBc3.model K) G cs).toG :=
+  ⟨Generic.commons_slopes (ShellJacobian.ClptDonnellBc3.cok G hL hr hc) cs,
+   Generic.commons_resG (ShellJacobian.ClptDonnellBc3.ok G hL hr hc) (ShellJacobian.ClptDonnellBc3.cok G hL hr hc) cs⟩
+
+/-- `clpt_donnell_bc4`: the matrix kernels are fed the state of `cffint` — the slopes `cfwx`, `cfwt` of `the commons module` return for `cfk0L` / `cfkLL`
+and the membrane resultants `cfN` returns for `cfkG` are, at any amplitudes, the slopes and `N₀ + N_L` that `cffint` accumulates. -/
+theorem shell_kernel_inputs_clpt_donnell_bc4 (G : Geo K) (hL : G.L ≠ 0) (hr : G.r ≠ 0) (hc : G.cosa ≠ 0) (cs : List (Amp 12 K)) :
+    (ClptDonnellBc4.commons.cmodel K).slopesAt G cs = slopesOf (ClptDonnellBc4.model K) G cs ∧
+      (ClptDonnellBc4.commons.cmodel K).resGAt G cs = (resOf (ClptDonnellBc4.model K) G cs).toG :=
+  ⟨Generic.commons_slopes (ShellJacobian.ClptDonnellBc4.cok G hL hr hc) cs,
+   Generic.commons_resG (ShellJacobian.ClptDonnellBc4.ok G hL hr hc) (ShellJacobian.ClptDonnellBc4.cok G hL hr hc) cs⟩
+
+/-- `iso_clpt_donnell_bc2`: the matrix kernels are fed the state of `cffint` — the slopes `cfwx`, `cfwt` of `the commons module` return for `cfk0L` / `cfkLL`
+and the membrane resultants `cfN` returns for `cfkG` are, at any amplitudes, the slopes and `N₀ + N_L` that `cffint` accumulates. -/
+theorem shell_kernel_inputs_iso_clpt_donnell_bc2 (G : Geo K) (hL : G.L ≠ 0) (hr : G.r ≠ 0) (hc : G.cosa ≠ 0) (hi : G.IsoLam) (hn1 : G.nu + 1 ≠ 0) (hn2 : G.nu - 1 ≠ 0) (cs : List (Amp 12 K)) :
+    (IsoClptDonnellBc2.commons.cmodel K).slopesAt G cs = slopesOf (IsoClptDonnellBc2.model K) G cs ∧
+      (IsoClptDonnellBc2.commons.cmodel K).resGAt G cs = (resOf (IsoClptDonnellBc2.model K) G cs).toG :=
+  ⟨Generic.commons_slopes (ShellJacobian.IsoClptDonnellBc2.cok G hL hr hc) cs,
+   Generic.commons_resG (ShellJacobian.IsoClptDonnellBc2.ok G hL hr hc hi hn1 hn2) (ShellJacobian.IsoClptDonnellBc2.cok G hL hr hc) cs⟩
+
+/-- `iso_clpt_donnell_bc3`: the matrix kernels are fed the state of `cffint` — the slopes `cfwx`, `cfwt` of `the commons module` return for `cfk0L` / `cfkLL`
+and the membrane resultants `cfN` returns for `cfkG` are, at any amplitudes, the slopes and `N₀ + N_L` that `cffint` accumulates. -/
+theorem shell_kernel_inputs_iso_clpt_donnell_bc3 (G : Geo K) (hL : G.L ≠ 0) (hr : G.r ≠ 0) (hc : G.cosa ≠ 0) (hi : G.IsoLam) (hn1 : G.nu + 1 ≠ 0) (hn2 : G.nu - 1 ≠ 0) (cs : List (Amp 12 K)) :
+    (IsoClptDonnellBc3.commons.cmodel K).slopesAt G cs = slopesOf (IsoClptDonnellBc3.model K) G cs ∧
+      (IsoClptDonnellBc3.commons.cmodel K).resGAt G cs = (resOf (IsoClptDonnellBc3.model K) G cs).toG :=
+  ⟨Generic.commons_slopes (ShellJacobian.IsoClptDonnellBc3.cok G hL hr hc) cs,
+   Generic.commons_resG (ShellJacobian.IsoClptDonnellBc3.ok G hL hr hc hi hn1 hn2) (ShellJacobian.IsoClptDonnellBc3.cok G hL hr hc) cs⟩
+
+/-- `clpt_sanders_bc1`: the matrix kernels are fed the state of `cffint` — the slopes `cfwx`, `cfwt`, `cfv` of `the commons module` return for `cfk0L` / `cfkLL`
+and the membrane resultants `cfN` returns for `cfkG` are, at any amplitudes, the slopes and `N₀ + N_L` that `cffint` accumulates. -/
+theorem shell_kernel_inputs_clpt_sanders_bc1 (G : Geo K) (hL : G.L ≠ 0) (hr : G.r ≠ 0) (hc : G.cosa ≠ 0) (cs : List (Amp 12 K)) :
+    (ClptSandersBc1.commons.cmodel K).slopesAt G cs = slopesOf (ClptSandersBc1.model K) G cs ∧
+      (ClptSandersBc1.commons.cmodel K).resGAt G cs = (resOf (ClptSandersBc1.model K) G cs).toG :=
+  ⟨Generic.commons_slopes (ShellJacobian.ClptSandersBc1.cok G hL hr hc) cs,
+   Generic.commons_resG (ShellJacobian.ClptSandersBc1.ok G hL hr hc) (ShellJacobian.ClptSandersBc1.cok G hL hr hc) cs⟩
+
+/-- `clpt_sanders_bc2`: the matrix kernels are fed the state of `cffint` — the slopes `cfwx`, `cfwt`, `cfv` of `the commons module` return for `cfk0L` / `cfkLL`
+and the membrane resultants `cfN` returns for `cfkG` are, at any amplitudes, the slopes and `N₀ + N_L` that `cffint` accumulates. -/
+theorem shell_kernel_inputs_clpt_sanders_bc2 (G : Geo K) (hL : G.L ≠ 0) (hr : G.r ≠ 0) (hc : G.cosa ≠ 0) (cs : List (Amp 12 K)) :
+    (ClptSandersBc2.commons.cmodel K).slopesAt G cs = slopesOf (ClptSandersBc2.model K) G cs ∧
+      (ClptSandersBc2.commons.cmodel K).resGAt G cs = (resOf (ClptSandersBc2.model K) G cs).toG :=
+  ⟨Generic.commons_slopes (ShellJacobian.ClptSandersBc2.cok G hL hr hc) cs,
+   Generic.commons_resG (ShellJacobian.ClptSandersBc2.ok G hL hr hc) (ShellJacobian.ClptSandersBc2.cok G hL hr hc) cs⟩
+
+/-- `clpt_sanders_bc4`: the matrix kernels are fed the state of `cffint` — the slopes `cfwx`, `cfwt`, `cfv` of `the commons module` return for `cfk0L` / `cfkLL`
+and the membrane resultants `cfN` returns for `cfkG` are, at any amplitudes, the slopes and `N₀ + N_L` that `cffint` accumulates. -/
+theorem shell_kernel_inputs_clpt_sanders_bc4 (G : Geo K) (hL : G.L ≠ 0) (hr : G.r ≠ 0) (hc : G.cosa ≠ 0) (cs : List (Amp 12 K)) :
+    (ClptSandersBc4.commons.cmodel K).slopesAt G cs = slopesOf (ClptSandersBc4.model K) G cs ∧
+      (ClptSandersBc4.commons.cmodel K).resGAt G cs = (resOf (ClptSandersBc4.model K) G cs).toG :=
+  ⟨Generic.commons_slopes (ShellJacobian.ClptSandersBc4.cok G hL hr hc) cs,
+   Generic.commons_resG (ShellJacobian.ClptSandersBc4.ok G hL hr hc) (ShellJacobian.ClptSandersBc4.cok G hL hr hc) cs⟩
+
+/-- `clpt_sanders_bc1`, REFUTATION for the load-asymmetry amplitude: at the concrete rational point `wG2` (undeformed state, imperfect
+shell) the internal-force integrand of the dof type 2 (`c[2]`) does NOT expand along the dof of type `defectCol2` with the
+tangent integrand as linear coefficient — `cfk0L` builds its row 2 with `cos(θ − θ_LA) − 1` where `cffint` has `cos(θ − θ_LA)`.
+(Harmless for the analyses `conecyl.py` allows: index 2 is always prescribed.) -/
+theorem shell_kT_is_jacobian_clpt_sanders_bc1_counterexample :
+    ¬ ∃ R₂ R₃ : ℚ, ∀ t : ℚ,
+      fintAt (ClptSandersBc1.model ℚ) ShellJacobian.ClptSandersBc1.wG2 ([] ++ [(⟨ShellJacobian.ClptSandersBc1.defectCol2, ShellJacobian.ClptSandersBc1.wb2, 1⟩ : Amp 12 ℚ)].map (Amp.scale t)) 2 ShellJacobian.ClptSandersBc1.wa2 =
+        fintAt (ClptSandersBc1.model ℚ) ShellJacobian.ClptSandersBc1.wG2 [] 2 ShellJacobian.ClptSandersBc1.wa2
+          + t * kTAt (ClptSandersBc1.model ℚ) ShellJacobian.ClptSandersBc1.wG2 [] 2 ShellJacobian.ClptSandersBc1.wa2 ShellJacobian.ClptSandersBc1.defectCol2 ShellJacobian.ClptSandersBc1.wb2 + t ^ 2 * R₂ + t ^ 3 * R₃ :=
+  Generic.not_jacobian_of_defect (ShellJacobian.ClptSandersBc1.ok _ ShellJacobian.ClptSandersBc1.wG2_ne.1 ShellJacobian.ClptSandersBc1.wG2_ne.2.1 ShellJacobian.ClptSandersBc1.wG2_ne.2.2) [] 2 ShellJacobian.ClptSandersBc1.defectCol2 (by decide) ShellJacobian.ClptSandersBc1.wa2 ShellJacobian.ClptSandersBc1.wb2
+    ShellJacobian.ClptSandersBc1.k0L_defect_2
+
+/-- `clpt_sanders_bc2`, REFUTATION for the load-asymmetry amplitude: at the concrete rational point `wG2` (undeformed state, imperfect
+shell) the internal-force integrand of the dof type 2 (`c[2]`) does NOT expand along the dof of type `defectCol2` with the
+tangent integrand as linear coefficient — `cfk0L` builds its row 2 with `cos(θ − θ_LA) − 1` where `cffint` has `cos(θ − θ_LA)`.
+(Harmless for the analyses `conecyl.py` allows: index 2 is always prescribed.) -/
+theorem shell_kT_is_jacobian_clpt_sanders_bc2_counterexample :
+    ¬ ∃ R₂ R₃ : ℚ, ∀ t : ℚ,
+      fintAt (ClptSandersBc2.model ℚ) ShellJacobian.ClptSandersBc2.wG2 ([] ++ [(⟨ShellJacobian.ClptSandersBc2.defectCol2, ShellJacobian.ClptSandersBc2.wb2, 1⟩ : Amp 12 ℚ)].map (Amp.scale t)) 2 ShellJacobian.ClptSandersBc2.wa2 =
+        fintAt (ClptSandersBc2.model ℚ) ShellJacobian.ClptSandersBc2.wG2 [] 2 ShellJacobian.ClptSandersBc2.wa2
+          + t * kTAt (ClptSandersBc2.model ℚ) ShellJacobian.ClptSandersBc2.wG2 [] 2 ShellJacobian.ClptSandersBc2.wa2 ShellJacobian.ClptSandersBc2.defectCol2 ShellJacobian.ClptSandersBc2.wb2 + t ^ 2 * R₂ + t ^ 3 * R₃ :=
+  Generic.not_jacobian_of_defect (ShellJacobian.ClptSandersBc2.ok _ ShellJacobian.ClptSandersBc2.wG2_ne.1 ShellJacobian.ClptSandersBc2.wG2_ne.2.1 ShellJacobian.ClptSandersBc2.wG2_ne.2.2) [] 2 ShellJacobian.ClptSandersBc2.defectCol2 (by decide) ShellJacobian.ClptSandersBc2.wa2 ShellJacobian.ClptSandersBc2.wb2
+    ShellJacobian.ClptSandersBc2.k0L_defect_2
+
+/-- `clpt_sanders_bc3`, REFUTATION for the load-asymmetry amplitude: at the concrete rational point `wG2` (undeformed state, imperfect
+shell) the internal-force integrand of the dof type 2 (`c[2]`) does NOT expand along the dof of type `defectCol2` with the
+tangent integrand as linear coefficient — `cfk0L` builds its row 2 with `cos(θ − θ_LA) − 1` where `cffint` has `cos(θ − θ_LA)`.
+(Harmless for the analyses `conecyl.py` allows: index 2 is always prescribed.) -/
+theorem shell_kT_is_jacobian_clpt_sanders_bc3_counterexample :
+    ¬ ∃ R₂ R₃ : ℚ, ∀ t : ℚ,
+      fintAt (ClptSandersBc3.model ℚ) ShellJacobian.ClptSandersBc3.wG2 ([] ++ [(⟨ShellJacobian.ClptSandersBc3.defectCol2, ShellJacobian.ClptSandersBc3.wb2, 1⟩ : Amp 12 ℚ)].map (Amp.scale t)) 2 ShellJacobian.ClptSandersBc3.wa2 =
+        fintAt (ClptSandersBc3.model ℚ) ShellJacobian.ClptSandersBc3.wG2 [] 2 ShellJacobian.ClptSandersBc3.wa2
+          + t * kTAt (ClptSandersBc3.model ℚ) ShellJacobian.ClptSandersBc3.wG2 [] 2 ShellJacobian.ClptSandersBc3.wa2 ShellJacobian.ClptSandersBc3.defectCol2 ShellJacobian.ClptSandersBc3.wb2 + t ^ 2 * R₂ + t ^ 3 * R₃ :=
+  Generic.not_jacobian_of_defect (ShellJacobian.ClptSandersBc3.ok _ ShellJacobian.ClptSandersBc3.wG2_ne.1 ShellJacobian.ClptSandersBc3.wG2_ne.2.1 ShellJacobian.ClptSandersBc3.wG2_ne.2.2) [] 2 ShellJacobian.ClptSandersBc3.defectCol2 (by decide) ShellJacobian.ClptSandersBc3.wa2 ShellJacobian.ClptSandersBc3.wb2
+    ShellJacobian.ClptSandersBc3.k0L_defect_2
+
+/-- `clpt_sanders_bc4`, REFUTATION for the load-asymmetry amplitude: at the concrete rational point `wG2` (undeformed state, imperfect
+shell) the internal-force integrand of the dof type 2 (`c[2]`) does NOT expand along the dof of type `defectCol2` with the
+tangent integrand as linear coefficient — `cfk0L` builds its row 2 with `cos(θ − θ_LA) − 1` where `cffint` has `cos(θ − θ_LA)`.
+(Harmless for the analyses `conecyl.py` allows: index 2 is always prescribed.) -/
+theorem shell_kT_is_jacobian_clpt_sanders_bc4_counterexample :
+    ¬ ∃ R₂ R₃ : ℚ, ∀ t : ℚ,
+      fintAt (ClptSandersBc4.model ℚ) ShellJacobian.ClptSandersBc4.wG2 ([] ++ [(⟨ShellJacobian.ClptSandersBc4.defectCol2, ShellJacobian.ClptSandersBc4.wb2, 1⟩ : Amp 12 ℚ)].map (Amp.scale t)) 2 ShellJacobian.ClptSandersBc4.wa2 =
+        fintAt (ClptSandersBc4.model ℚ) ShellJacobian.ClptSandersBc4.wG2 [] 2 ShellJacobian.ClptSandersBc4.wa2
+          + t * kTAt (ClptSandersBc4.model ℚ) ShellJacobian.ClptSandersBc4.wG2 [] 2 ShellJacobian.ClptSandersBc4.wa2 ShellJacobian.ClptSandersBc4.defectCol2 ShellJacobian.ClptSandersBc4.wb2 + t ^ 2 * R₂ + t ^ 3 * R₃ :=
+  Generic.not_jacobian_of_defect (ShellJacobian.ClptSandersBc4.ok _ ShellJacobian.ClptSandersBc4.wG2_ne.1 ShellJacobian.ClptSandersBc4.wG2_ne.2.1 ShellJacobian.ClptSandersBc4.wG2_ne.2.2) [] 2 ShellJacobian.ClptSandersBc4.defectCol2 (by decide) ShellJacobian.ClptSandersBc4.wa2 ShellJacobian.ClptSandersBc4.wb2
+    ShellJacobian.ClptSandersBc4.k0L_defect_2
+
+
+/-- `clpt_sanders_bc2`, MATRIX LEVEL for what the pointwise theorems give: IF `calc_k0L` did not skip, the assembled tangent would
+be the Jacobian (same statement as for the other Sanders models, with the skip flags of `k0L` set to "none").
+PARTIAL: not about the matrices the source returns — see the counterexample below. -/
+theorem shell_tangent_is_jacobian_clpt_sanders_bc2_partial (m1 m2 n2 : Nat) (geo : K → K → Geo K) (sinx cosx sint cost : Nat → K → K)
+    (pts : List (Pt K)) (hgeo : ∀ p ∈ pts, (geo p.x p.y).L ≠ 0 ∧ (geo p.x p.y).r ≠ 0 ∧ (geo p.x p.y).cosa ≠ 0)
+    (k0 : Mat K) (c d : Vec K) (hd : ∀ j, stdTy m1 j ≠ 2 ∨ d j = 0) :
+    ∃ R : K → Vec K, ∀ (t : K) (i : Nat), stdTy m1 i ≠ 2 →
+      fint (stdAsm m1 m2 n2 geo sinx cosx sint cost [] ClptSandersBc2.schema_kLL ClptSandersBc2.schema_kG).n k0
+          (fNLq (ClptSandersBc2.model K) (stdAsm m1 m2 n2 geo sinx cosx sint cost [] ClptSandersBc2.schema_kLL ClptSandersBc2.schema_kG).toLayout pts)
+          (fun j => c j + t * d j) i =
+        fint (stdAsm m1 m2 n2 geo sinx cosx sint cost [] ClptSandersBc2.schema_kLL ClptSandersBc2.schema_kG).n k0
+          (fNLq (ClptSandersBc2.model K) (stdAsm m1 m2 n2 geo sinx cosx sint cost [] ClptSandersBc2.schema_kLL ClptSandersBc2.schema_kG).toLayout pts) c i
+          + t * sumTo (stdAsm m1 m2 n2 geo sinx cosx sint cost [] ClptSandersBc2.schema_kLL ClptSandersBc2.schema_kG).n
+              (fun j => kT (asmParts (ClptSandersBc2.model K)
+                (stdAsm m1 m2 n2 geo sinx cosx sint cost [] ClptSandersBc2.schema_kLL ClptSandersBc2.schema_kG) pts k0 c) true true i j * d j)
+          + t ^ 2 * R t i := by
+  obtain ⟨R, hR⟩ := tangent_is_jacobian_assembled (ClptSandersBc2.model K)
+    (stdAsm m1 m2 n2 geo sinx cosx sint cost [] ClptSandersBc2.schema_kLL ClptSandersBc2.schema_kG) pts ShellJacobian.ClptSandersBc2.good
+    (fun p hp => ShellJacobian.ClptSandersBc2.ok _ (hgeo p hp).1 (hgeo p hp).2.1 (hgeo p hp).2.2)
+    (stdAsm_ok _ ShellJacobian.ClptSandersBc2.cls_eq _ _ _ _ _ _ _ _ _ _ _) (skipOf_false _ (by simp)) k0 c d hd
+  exact ⟨R, fun t i hi => hR t i hi⟩
+
+/-- `clpt_sanders_bc2`, REFUTATION at the matrix level: `calc_k0L` / `cfk0L` of this module carry the `if row > col: continue` of
+the symmetric kernels in their blocks 11 and 22, but `k0L` is not symmetric and `_calc_NL_matrices` uses `k0L + k0Lᵀ` without
+`make_symmetric`.  Concrete instance (`m1 = 3`, one integration point, the rational point `wG2`, trigonometric factors 1,
+undeformed imperfect shell): the entry (9, 8) of `k0L + k0Lᵀ + make_symmetric(kLL) + make_symmetric(kG)` — row: `u`-amplitude of
+the term `i1 = 2`, column: `w`-amplitude of the term `i1 = 1`, both free — differs from the quadrature of the tangent
+integrand, i.e. (by `shell_kT_is_jacobian_clpt_sanders_bc2_partial`) from the derivative of the internal force. -/
+theorem shell_tangent_matrix_clpt_sanders_bc2_counterexample :
+    k0Lmat (ClptSandersBc2.model ℚ)
+        (stdAsm 3 0 0 (fun _ _ => ShellJacobian.ClptSandersBc2.wG2) (fun _ _ => 1) (fun _ _ => 1) (fun _ _ => 1) (fun _ _ => 1)
+          ClptSandersBc2.schema_k0L ClptSandersBc2.schema_kLL ClptSandersBc2.schema_kG) [⟨0, 0, 1, 1⟩] (fun _ => 0) 9 8
+      + k0Lmat (ClptSandersBc2.model ℚ)
+        (stdAsm 3 0 0 (fun _ _ => ShellJacobian.ClptSandersBc2.wG2) (fun _ _ => 1) (fun _ _ => 1) (fun _ _ => 1) (fun _ _ => 1)
+          ClptSandersBc2.schema_k0L ClptSandersBc2.schema_kLL ClptSandersBc2.schema_kG) [⟨0, 0, 1, 1⟩] (fun _ => 0) 8 9
+      + sym (kLLmat (ClptSandersBc2.model ℚ)
+        (stdAsm 3 0 0 (fun _ _ => ShellJacobian.ClptSandersBc2.wG2) (fun _ _ => 1) (fun _ _ => 1) (fun _ _ => 1) (fun _ _ => 1)
+          ClptSandersBc2.schema_k0L ClptSandersBc2.schema_kLL ClptSandersBc2.schema_kG) [⟨0, 0, 1, 1⟩] (fun _ => 0)) 9 8
+      + sym (kGmat (ClptSandersBc2.model ℚ)
+        (stdAsm 3 0 0 (fun _ _ => ShellJacobian.ClptSandersBc2.wG2) (fun _ _ => 1) (fun _ _ => 1) (fun _ _ => 1) (fun _ _ => 1)
+          ClptSandersBc2.schema_k0L ClptSandersBc2.schema_kLL ClptSandersBc2.schema_kG) [⟨0, 0, 1, 1⟩] (fun _ => 0)) 9 8
+      ≠ Jq (ClptSandersBc2.model ℚ)
+        (stdAsm 3 0 0 (fun _ _ => ShellJacobian.ClptSandersBc2.wG2) (fun _ _ => 1) (fun _ _ => 1) (fun _ _ => 1) (fun _ _ => 1)
+          ClptSandersBc2.schema_k0L ClptSandersBc2.schema_kLL ClptSandersBc2.schema_kG).toLayout [⟨0, 0, 1, 1⟩] (fun _ => 0) 9 8 := by
+  have hok : ∀ p ∈ ([⟨0, 0, 1, 1⟩] : List (Pt ℚ)), ModelOK (ClptSandersBc2.model ℚ)
+      ((stdAsm 3 0 0 (fun _ _ => ShellJacobian.ClptSandersBc2.wG2) (fun _ _ => (1 : ℚ)) (fun _ _ => 1) (fun _ _ => 1) (fun _ _ => 1)
+        ClptSandersBc2.schema_k0L ClptSandersBc2.schema_kLL ClptSandersBc2.schema_kG).geo p.x p.y) ShellJacobian.ClptSandersBc2.good :=
+    fun _ _ => ShellJacobian.ClptSandersBc2.ok _ ShellJacobian.ClptSandersBc2.wG2_ne.1 ShellJacobian.ClptSandersBc2.wG2_ne.2.1
+      ShellJacobian.ClptSandersBc2.wG2_ne.2.2
+  rw [asm_defect _ _ _ _ hok (stdAsm_ok _ ShellJacobian.ClptSandersBc2.cls_eq _ _ _ _ _ _ _ _ _ _ _) _ 9 8 (by decide) (by decide)]
+  intro h
+  have hz := sub_eq_self.mp h
+  revert hz
+  simp only [List.map_cons, List.map_nil, List.sum_cons, List.sum_nil, slopesOf_amps_zero]
+  have e9 : stdTy 3 9 = 3 := by decide
+  have e8 : stdTy 3 8 = 5 := by decide
+  show ¬ ((1 : ℚ) * (ClptSandersBc2.model ℚ).k0L (stdTy 3 9) (stdTy 3 8) ShellJacobian.ClptSandersBc2.wG2 ⟨0, 0, 0⟩
+      (stdDof 3 0 (fun _ _ => 1) (fun _ _ => 1) (fun _ _ => 1) (fun _ _ => 1) 9 0 0)
+      (stdDof 3 0 (fun _ _ => 1) (fun _ _ => 1) (fun _ _ => 1) (fun _ _ => 1) 8 0 0) + 0 = 0)
+  rw [e9, e8]
+  simp only [stdDof, shell_tab, shell_nl, ShellJacobian.ClptSandersBc2.wG2]
+  norm_num
+
+/-- `clpt_sanders_bc3`, REFUTATION of the kernel-input tie: `cfstrain_sanders` of `clpt_commons_bc3.pyx` (through which `cfN` computes
+the resultants for `cfkG`) gives the `u`-sine amplitude of an `(i2, j2)` term (type 6) NO contribution to `γ_xθ`, while `cffint` of
+`clpt_sanders_bc3_nonlinear.pyx` has `c[col+0]·cos(j2 θ)·j2·sin(i2 π x/L)/r` (concrete rational point `cwG`): the geometric
+stiffness is evaluated at other membrane resultants than the internal force — the tangent is not its Jacobian. -/
+theorem shell_kernel_inputs_clpt_sanders_bc3_counterexample :
+    (ClptSandersBc3.commons.cmodel ℚ).e ShellJacobian.ClptSandersBc3.cwA ShellJacobian.ClptSandersBc3.cwp ShellJacobian.ClptSandersBc3.cwG
+        ShellJacobian.ClptSandersBc3.cwS ShellJacobian.ClptSandersBc3.cwd ≠
+      (ClptSandersBc3.model ℚ).e0 ShellJacobian.ClptSandersBc3.cwA ShellJacobian.ClptSandersBc3.cwp ShellJacobian.ClptSandersBc3.cwG
+          ShellJacobian.ClptSandersBc3.cwd
+        + (ClptSandersBc3.model ℚ).eL ShellJacobian.ClptSandersBc3.cwA ShellJacobian.ClptSandersBc3.cwp ShellJacobian.ClptSandersBc3.cwG
+          ShellJacobian.ClptSandersBc3.cwS ShellJacobian.ClptSandersBc3.cwd :=
+  ShellJacobian.ClptSandersBc3.commons_defect
+
+/-- `fsdt_donnell_bc1`, REFUTATION (regenerated terms, 8 strains / 18 degree-of-freedom types, vocabulary `Core/ShellNLSpec8.lean`): at the
+rational point `wG`, undeformed state of an imperfect shell, the internal-force integrand of the `u`-amplitude of an `i1` term
+(type 3) does not depend on the `w`-amplitude of an `i1` term (type 5) to first order, yet the tangent integrand there is 30:
+the tangent is not the Jacobian.  Cause (exact evaluation of the translated source, `tools/translate/gen_shell_jacobian.py`):
+in the `i1` block `cffint` forms `w,x` from `c[col+2]` but the non-linear strains `ε_xx^L, γ_xθ^L` from `c[col+3]` with the
+COSINE-series factor `−i1 π sin(i1 π x/L)/L`, while `cfk0L / cfkLL / cfkG` use `c[col+2]` with `i1 π cos(i1 π x/L)/L`: the
+structural identities `k0L`, `kLL`, `kG`, reciprocity fail for every pair involving the types 5, 6 (and 12, 13).  This is the
+recorded finding `C17-kT-not-jacobian-fsdt_donnell_bc1`. -/
+theorem shell_kT_is_jacobian_fsdt_donnell_bc1_counterexample :
+    ¬ ∃ R₂ R₃ : ℚ, ∀ t : ℚ,
+      fintAt8 (FsdtDonnellBc1.model ℚ) ShellJacobian.FsdtDonnellBc1.wG
+          ([] ++ [(⟨ShellJacobian.FsdtDonnellBc1.wB, ShellJacobian.FsdtDonnellBc1.wb, 1⟩ : Amp 18 ℚ)].map (Amp.scale t))
+          ShellJacobian.FsdtDonnellBc1.wA ShellJacobian.FsdtDonnellBc1.wa =
+        fintAt8 (FsdtDonnellBc1.model ℚ) ShellJacobian.FsdtDonnellBc1.wG [] ShellJacobian.FsdtDonnellBc1.wA ShellJacobian.FsdtDonnellBc1.wa
+          + t * kTAt8 (FsdtDonnellBc1.model ℚ) ShellJacobian.FsdtDonnellBc1.wG [] ShellJacobian.FsdtDonnellBc1.wA
+              ShellJacobian.FsdtDonnellBc1.wa ShellJacobian.FsdtDonnellBc1.wB ShellJacobian.FsdtDonnellBc1.wb
+          + t ^ 2 * R₂ + t ^ 3 * R₃ :=
+  ShellJacobian.FsdtDonnellBc1.not_jacobian
+
+/-- `fsdt_donnell_bcn`, REFUTATION: as for `fsdt_donnell_bc1` (same defect of the `i1` block); in addition `cfwx`, `cfwt` of
+`fsdt_commons_bcn` return other slopes than `cffint` accumulates for the types 12, 13 (validation V: `calc_k0L`, `calc_kLL` of the
+compiled module differ from the kernels evaluated at the slopes of `cffint` by 100 %).  Recorded finding
+`C17-kT-not-jacobian-fsdt_donnell_bcn`. -/
+theorem shell_kT_is_jacobian_fsdt_donnell_bcn_counterexample :
+    ¬ ∃ R₂ R₃ : ℚ, ∀ t : ℚ,
+      fintAt8 (FsdtDonnellBcn.model ℚ) ShellJacobian.FsdtDonnellBcn.wG
+          ([] ++ [(⟨ShellJacobian.FsdtDonnellBcn.wB, ShellJacobian.FsdtDonnellBcn.wb, 1⟩ : Amp 18 ℚ)].map (Amp.scale t))
+          ShellJacobian.FsdtDonnellBcn.wA ShellJacobian.FsdtDonnellBcn.wa =
+        fintAt8 (FsdtDonnellBcn.model ℚ) ShellJacobian.FsdtDonnellBcn.wG [] ShellJacobian.FsdtDonnellBcn.wA ShellJacobian.FsdtDonnellBcn.wa
+          + t * kTAt8 (FsdtDonnellBcn.model ℚ) ShellJacobian.FsdtDonnellBcn.wG [] ShellJacobian.FsdtDonnellBcn.wA
+              ShellJacobian.FsdtDonnellBcn.wa ShellJacobian.FsdtDonnellBcn.wB ShellJacobian.FsdtDonnellBcn.wb
+          + t ^ 2 * R₂ + t ^ 3 * R₃ :=
+  ShellJacobian.FsdtDonnellBcn.not_jacobian
+
+/-- Schema facts, decided on the regenerated data: which `calc_k0L` skip `row > col` (only `clpt_sanders_bc2`, in blocks 11 and 22). -/
+theorem shell_k0L_schema_skips :
+    (∀ b ∈ ClptDonnellBc1.schema_k0L, b.2.2.1 = false) ∧ (∀ b ∈ ClptDonnellBc2.schema_k0L, b.2.2.1 = false) ∧
+    (∀ b ∈ ClptDonnellBc3.schema_k0L, b.2.2.1 = false) ∧ (∀ b ∈ ClptDonnellBc4.schema_k0L, b.2.2.1 = false) ∧
+    (∀ b ∈ IsoClptDonnellBc2.schema_k0L, b.2.2.1 = false) ∧ (∀ b ∈ IsoClptDonnellBc3.schema_k0L, b.2.2.1 = false) ∧
+    (∀ b ∈ ClptSandersBc1.schema_k0L, b.2.2.1 = false) ∧ (∀ b ∈ ClptSandersBc3.schema_k0L, b.2.2.1 = false) ∧
+    (∀ b ∈ ClptSandersBc4.schema_k0L, b.2.2.1 = false) ∧
+    skipOf ClptSandersBc2.schema_k0L 1 1 = true ∧ skipOf ClptSandersBc2.schema_k0L 2 2 = true := by
+  decide
+
+end Stage2
 
 end Compmech.ShellNL.C17
